@@ -1,20 +1,283 @@
 """C16 — RingBuffer cursor/slot algebra, clear-before-free, moved-from state;
-SimpleVector allocation-mode table, ownership of array_, resize order."""
-from engine import ir, dtable, match, cfg as cfgm
+SimpleVector allocation-mode table, ownership of array_, resize order.
+
+Verdict discipline of this file: a violation is reported only on positive evidence - a counterexample of an evaluation
+(cursor grid, skeleton run), a CFG path, or an effect list in which EVERY statement was classified.  A shape that is not
+recognised is dtable.Undecidable, unless absence can be established in a closed world (every operation that touches the
+object on the path is of a known kind and none of them has the required effect)."""
+from engine import ir, dtable, match, skel, cfg as cfgm
 from engine.ir import kids, strip_casts, const_int, ref_of
+from engine.mustfact import MustFact
 
 RB = "tlx::RingBuffer"
 SV = "tlx::SimpleVector"
+M64 = 2 ** 64
+BASE = 1000            # address of data_[0] / array[0] in the evaluations
+
+TRANSPARENT = ("move", "forward", "as_const", "move_if_noexcept")       # value-preserving wrappers
+ASSIGN_OPS = ("=", "+=", "-=", "*=", "/=", "%=", "&=", "|=", "^=", "<<=", ">>=")
 
 
 def is_assert_stmt(s):
     """assert() expansion: NDEBUG -> static_cast<void>(0); otherwise cond ? void(0) : __assert_fail()"""
-    s = s
+    if s is None:
+        return False
     if s["k"] in ("CXXStaticCastExpr", "CStyleCastExpr") and s.get("ty") == "void":
         return True
     if s["k"] == "ConditionalOperator":
         return any(c.get("callee", {}).get("noreturn") for c in ir.walk(s) if "callee" in c)
     return False
+
+
+def unwrap(e):
+    """looks through casts, converting constructions and std::move / std::forward / std::as_const"""
+    e = match.strip_conv(e)
+    while e is not None and e["k"] == "CallExpr" and e["callee"]["name"] in TRANSPARENT and len(kids(e)) == 1:
+        e = match.strip_conv(kids(e)[0])
+    return e
+
+
+def is_null(e):
+    e = unwrap(e)
+    return e is not None and (e["k"] in ("NullPtr", "CXXNullPtrLiteralExpr", "GNUNullExpr") or const_int(e) == 0)
+
+
+def P(g, n):
+    """CFG position of a node (of its last evaluated part if it is not an element itself)"""
+    return g.pos(n) or g.pos_deep(n)
+
+
+def local_defs(fn):
+    """declaration id -> VarDecl of the locals that get their value at the declaration and keep it: never assigned,
+    incremented, address-taken or handed to swap/exchange"""
+    decls = {v["did"]: v for v in fn.nodes() if v["k"] == "VarDecl" and v.get("did") is not None and kids(v) and kids(v)[0] is not None}
+    for x in fn.nodes():
+        w = match.unop(x, ("++", "--")) or (match.binop(x, ASSIGN_OPS) if x["k"] in ("BinaryOperator", "CompoundAssignOperator", "CXXOperatorCallExpr") else None)
+        if w and ref_of(w[1]) is not None:
+            decls.pop(ref_of(w[1]), None)
+        if x["k"] == "UnaryOperator" and x.get("op") == "&" and kids(x) and ref_of(kids(x)[0]) is not None:
+            decls.pop(ref_of(kids(x)[0]), None)
+        if "callee" in x and x["callee"]["name"] in ("swap", "exchange", "iter_swap"):
+            for a in kids(x):
+                if ref_of(a) is not None:
+                    decls.pop(ref_of(a), None)
+    return decls
+
+
+def captured_field(fn, g, e, defs, at):
+    """e names a field of *this, directly or through a local that keeps the value it got at its declaration:
+    -> (field name, CFG position at which the field was read) or None"""
+    e = unwrap(e)
+    for _ in range(4):
+        f = match.this_field(e)
+        if f:
+            return f, at
+        d = ref_of(e)
+        if d is None or d not in defs:
+            return None
+        v = defs[d]
+        if not (v.get("ty") or "").rstrip().endswith("&"):
+            at = P(g, v)                     # a value copy: read where the local is declared
+            if at is None:
+                return None
+        e = unwrap(kids(v)[0])
+    return None
+
+
+# ------------------------------------------------------------------ evaluation of ring-buffer members on small buffers
+def _umod(v, ty):
+    if isinstance(v, bool) or not isinstance(v, int):
+        return v
+    t = ty or ""
+    if "unsigned long" in t or "size_t" in t:
+        return v % M64
+    if "unsigned int" in t or t == "unsigned":
+        return v % (2 ** 32)
+    if "unsigned short" in t:
+        return v % (2 ** 16)
+    return v
+
+
+def unsigned_arith(e, sk):
+    """C++ semantics for the operators on which unbounded integers differ from unsigned ones (division, remainder, shift,
+    comparison): the operands are reduced to their unsigned type first.  + - * & | ^ commute with the final reduction."""
+    if e["k"] == "BinaryOperator" and e.get("op") in ("%", "/", ">>", "<", "<=", ">", ">=", "==", "!="):
+        a, b = kids(e)
+        return sk.arith(e["op"], _umod(sk.ev(a), a.get("ty")), _umod(sk.ev(b), b.get("ty")), e)
+    if e["k"] == "CompoundAssignOperator" and e.get("op") in ("%=", "/=", ">>="):
+        a, b = kids(e)
+        key = sk.lvalue(a)
+        r = sk.arith(e["op"][:-1], _umod(sk.load(key), a.get("ty")), _umod(sk.ev(b), b.get("ty")), e)
+        sk.store(key, r)
+        return r
+    return NotImplemented
+
+
+def _has_update(e):
+    return any((y["k"] == "UnaryOperator" and y.get("op") in ("++", "--")) or (y["k"] in ("BinaryOperator", "CompoundAssignOperator") and y.get("op") in ASSIGN_OPS)
+               or (y["k"] == "CXXOperatorCallExpr" and y.get("op") in ASSIGN_OPS + ("++", "--")) for y in ir.walk(e))
+
+
+def _assign_through(e, sk):
+    """assignments the skeleton does not model itself: the target is the result of another update ((++end_) &= mask_,
+    (end_ += 1) &= mask_): the inner update is performed first, then the outer one on the same object.  An assignment whose
+    target the skeleton cannot name is Undecidable (it would be dropped silently)."""
+    if e["k"] == "UnaryOperator" and e.get("op") in ("++", "--"):
+        if sk.lvalue(kids(e)[0]) is None:
+            raise dtable.Undecidable("%s: target of %s not understood: %s" % (sk.fn.nloc(e), e["op"], dtable.describe(e)))
+        return NotImplemented
+    if e["k"] not in ("BinaryOperator", "CompoundAssignOperator") or e.get("op") not in ASSIGN_OPS:
+        return NotImplemented
+    l = strip_casts(kids(e)[0])
+    while l is not None and l["k"] == "ParenExpr":
+        l = strip_casts(kids(l)[0])
+    inner_update = l is not None and ((l["k"] == "UnaryOperator" and l.get("op") in ("++", "--") and not l.get("postfix")) or
+                                      (l["k"] in ("BinaryOperator", "CompoundAssignOperator") and l.get("op") in ASSIGN_OPS))
+    if not inner_update:
+        if _has_update(l) or sk.lvalue(l) is None:
+            raise dtable.Undecidable("%s: assignment target not understood: %s" % (sk.fn.nloc(e), dtable.describe(e)))
+        return NotImplemented
+    sk.ev(l)
+    t = l
+    while t is not None and ((t["k"] == "UnaryOperator" and t.get("op") in ("++", "--")) or
+                             (t["k"] in ("BinaryOperator", "CompoundAssignOperator") and t.get("op") in ASSIGN_OPS) or t["k"] == "ParenExpr"):
+        t = strip_casts(kids(t)[0])
+    key = sk.lvalue(t) if t is not None and not _has_update(t) else None
+    if key is None:
+        raise dtable.Undecidable("%s: assignment target not understood: %s" % (sk.fn.nloc(e), dtable.describe(e)))
+    rhs = sk.ev(kids(e)[1])
+    if e["op"] == "=":
+        v = rhs
+    else:
+        v = sk.arith(e["op"][:-1], _umod(sk.load(key), kids(e)[0].get("ty")), _umod(rhs, kids(e)[1].get("ty")), e)
+    sk.store(key, v)
+    return v
+
+
+def _address(v):
+    """element address of an evaluated pointer: data_ + i is an integer, &data_[i] is ('ptr', ('mem', a))"""
+    if isinstance(v, int) and not isinstance(v, bool):
+        return v
+    if isinstance(v, tuple) and len(v) == 2 and v[0] == "ptr":
+        s = _slot_of_key(v[1])
+        return None if s is None else BASE + s
+    return None
+
+
+def _slot_of_key(key):
+    """index of the data_ slot an evaluated lvalue names: ('mem', address) or ('elem', data_, index) (data_ seen as `T* const`)"""
+    if isinstance(key, tuple) and len(key) == 2 and key[0] == "mem" and isinstance(key[1], int) and not isinstance(key[1], bool):
+        return key[1] - BASE
+    if isinstance(key, tuple) and len(key) == 3 and key[0] == "elem" and key[1] == ("field", "data_") and isinstance(key[2], int) and not isinstance(key[2], bool):
+        return key[2]
+    return None
+
+
+def _return_ids(fn):
+    """ids of the expressions returned by fn (through the wrappers the skeleton looks through)"""
+    out = set()
+    for r in ir.walk(fn.body):
+        if r["k"] == "ReturnStmt" and kids(r):
+            n = kids(r)[0]
+            for _ in range(8):
+                if n is None:
+                    break
+                out.add(n["id"])
+                m = match.strip_conv(n)
+                if m is None:
+                    break
+                out.add(m["id"])
+                if m["k"] in ("ParenExpr", "ExprWithCleanups", "MaterializeTemporaryExpr", "CXXBindTemporaryExpr", "ConstantExpr") and kids(m):
+                    n = kids(m)[0]
+                else:
+                    break
+    return out
+
+
+def ring_run(fn, b_, e_, m_, i_=None):
+    """evaluates the body of a RingBuffer member for one cursor position (begin_, end_) of a buffer with capacity m_+1:
+    -> (returned value, key of the returned lvalue, final environment, constructed slots, destroyed slots).
+    Closed world: a call that is neither an element construction/destruction, a value wrapper nor a member of *this whose
+    body is entered is Undecidable."""
+    made, gone, rk = [], [], [None]
+    rets = {}
+
+    def event(e, sk):
+        if sk.fn.did not in rets:
+            rets[sk.fn.did] = _return_ids(sk.fn)
+        if e["id"] in rets[sk.fn.did]:
+            k_ = sk.lvalue(e)                  # the element a return names; a forwarding `return front();` takes it from the callee
+            if k_ is not None:
+                rk[0] = k_
+        if is_assert_stmt(e):
+            return None
+        r = _assign_through(e, sk)
+        if r is not NotImplemented:
+            return r
+        r = unsigned_arith(e, sk)
+        if r is not NotImplemented:
+            return r
+        if e["k"] == "CXXNewExpr" and e.get("placement") == 1 and not e.get("array") and kids(e):
+            a = _address(sk.ev(kids(e)[0]))               # ::new (address) T(...)
+            if a is None:
+                raise dtable.Undecidable("%s: address of the placement new cannot be evaluated: %s" % (sk.fn.nloc(e), dtable.describe(kids(e)[0])))
+            made.append(a - BASE)
+            return ("ptr", ("mem", a))
+        if e["k"] in ("CXXNewExpr", "CXXDeleteExpr", "LambdaExpr"):
+            raise dtable.Undecidable("%s: %s is not evaluated in a ring-buffer member" % (sk.fn.nloc(e), e["k"]))
+        if "callee" in e:
+            nm = e["callee"]["name"]
+            args = kids(e)
+            if nm in ("addressof", "__addressof") and args:
+                key = sk.lvalue(args[-1])
+                return ("ptr", key) if key is not None else None
+            if nm in ("construct", "construct_at", "destroy", "destroy_at") and len(args) >= 1:
+                with_alloc = nm in ("construct", "destroy")
+                if with_alloc and len(args) < 2:
+                    raise dtable.Undecidable("%s: %s call not understood" % (sk.fn.nloc(e), nm))
+                a = _address(sk.ev(args[1] if with_alloc else args[0]))
+                if a is None:
+                    raise dtable.Undecidable("%s: address of the %sed element cannot be evaluated: %s"
+                                             % (sk.fn.nloc(e), nm.split("_")[0], dtable.describe(args[1] if with_alloc else args[0])))
+                (made if nm.startswith("construct") else gone).append(a - BASE)
+                return None
+            if e["k"] == "CXXOperatorCallExpr" and args:
+                a0 = strip_casts(args[0])
+                while a0 is not None and a0["k"] == "ParenExpr":
+                    a0 = strip_casts(kids(a0)[0])
+                cal = sk.tu.by_did.get(e["callee"].get("did")) if sk.tu is not None else None
+                if a0 is not None and a0["k"] == "UnaryOperator" and a0.get("op") == "*" and strip_casts(kids(a0)[0])["k"] == "This" and cal is not None:
+                    # (*this)[i], (*this)(...): the member operator is entered like a named member call
+                    r = sk.inline({"k": "CXXMemberCallExpr", "member_call": True, "callee": e["callee"], "id": e["id"], "ch": [kids(a0)[0]] + args[1:]},
+                                  [kids(a0)[0]] + args[1:])
+                    if r is NotImplemented:
+                        raise dtable.Undecidable("%s: call of %s on *this is not understood" % (sk.fn.nloc(e), nm))
+                    return r
+                return NotImplemented
+            if nm in TRANSPARENT or nm in ("min", "max"):
+                return NotImplemented
+            if e["k"] in ("CXXConstructExpr", "CXXTemporaryObjectExpr"):
+                return None                               # an element value
+            cal = sk.tu.by_did.get(e["callee"].get("did")) if sk.tu is not None else None
+            on_this = bool(e.get("member_call") and args and strip_casts(args[0])["k"] == "This")
+            if cal is not None and cal.body is not None and cal.did != sk.fn.did and cal.kind not in ("ctor", "dtor", "lambda") and sk.depth < 5 \
+                    and (on_this or not e.get("member_call")) and len(args) - (1 if on_this else 0) == len(cal.params):
+                return NotImplemented                     # the skeleton enters the body
+            raise dtable.Undecidable("%s: call of %s is not understood in a ring-buffer member" % (sk.fn.nloc(e), nm))
+        return NotImplemented
+    env = {("field", "begin_"): b_, ("field", "end_"): e_, ("field", "mask_"): m_, ("field", "capacity_"): m_ + 1,
+           ("field", "data_"): BASE, ("field", "max_size_"): m_}
+    if fn.params and i_ is not None:
+        env[fn.params[0]["did"]] = i_
+    sk = skel.Skel(fn, env, None, event, max_iter=64)
+    ret = None
+    try:
+        sk.run(kids(fn.body))
+    except skel.Return as r_:
+        ret = r_.v
+    except skel.Diverges as d_:
+        raise dtable.Undecidable("%s: loop does not end for begin_=%d end_=%d mask_=%d" % (fn.nloc(d_.loop), b_, e_, m_))
+    return ret, rk[0], sk.env, made, gone
 
 
 # ------------------------------------------------------------------ cursor algebra
@@ -41,9 +304,9 @@ def eval_index(n, st, fn):
     n = strip_casts(n)
     f = match.this_field(n)
     if f == "begin_":
-        return Cursor("b", st["b"], masked=True)
+        return Cursor("b", st["b"], masked=st.get("bm", True))
     if f == "end_":
-        return Cursor("e", st["e"], masked=True)
+        return Cursor("e", st["e"], masked=st.get("em", True))
     b = match.binop(n, ("&", "%", "+", "-"))
     if b:
         op, l, r = b
@@ -86,6 +349,8 @@ def slot_of_address(a, st, fn):
     b = match.binop(a, ("+",))
     if b and match.this_field(b[1]) == "data_":
         return eval_index(b[2], st, fn)
+    if b and match.this_field(b[2]) == "data_":
+        return eval_index(b[1], st, fn)
     return None
 
 
@@ -100,23 +365,34 @@ def slot_of_lvalue(e, st, fn):
 
 
 def cursor_update(s, st, fn):
-    """recognise ++end_ &= mask_, --begin_ &= mask_, end_ = (end_+1) & mask_ ...; returns
-    (cursor name, new offset, masked) or None"""
-    b = match.binop(s, ("&=", "=", "%="))
+    """recognises ++end_ &= mask_, --begin_ &= mask_, end_ = (end_+1) & mask_, ++end_, end_ += 1, end_ &= mask_ ...;
+    returns (cursor name, new offset, wrapped) or None.  A cursor may be advanced and wrapped in two statements."""
+    b = match.binop(s, ("&=", "%=", "=", "+=", "-="))
     if b:
         op, l, r = b
         if op in ("&=", "%="):
-            u = match.unop(l, ("++", "--"))
-            tgt = match.this_field(u[1]) if u else None
-            mask_ok = (op == "&=" and match.this_field(r) == "mask_") or (op == "%=" and match.this_field(r) == "capacity_")
-            if tgt in ("begin_", "end_"):
-                return tgt, st[tgt[0]] + (1 if u[0] == "++" else -1), mask_ok
-        if op == "=":
+            wraps = (op == "&=" and match.this_field(r) == "mask_") or (op == "%=" and match.this_field(r) == "capacity_")
+            if not wraps:
+                return None
             tgt = match.this_field(l)
             if tgt in ("begin_", "end_"):
-                c = eval_index(r, st, fn)
-                if c and c.base == tgt[0] and c.param is None:
-                    return tgt, c.off, c.masked
+                return tgt, st[tgt[0]], True
+            inner = cursor_update(l, st, fn)          # (++end_) &= mask_ / (end_ += 1) &= mask_
+            if inner and strip_casts(l)["k"] != "BinaryOperator":
+                return inner[0], inner[1], True
+            return None
+        if op in ("+=", "-="):
+            tgt = match.this_field(l)
+            k = const_int(r)
+            if tgt in ("begin_", "end_") and k is not None:
+                return tgt, st[tgt[0]] + (k if op == "+=" else -k), False
+            return None
+        tgt = match.this_field(l)
+        if tgt in ("begin_", "end_"):
+            c = eval_index(r, st, fn)
+            if c and c.base == tgt[0] and c.param is None:
+                return tgt, c.off, c.masked
+        return None
     u = match.unop(s, ("++", "--"))
     if u and match.this_field(u[1]) in ("begin_", "end_"):
         tgt = match.this_field(u[1])
@@ -130,16 +406,19 @@ EXPECT = {  # public mutator -> (delta begin, delta end)
 }
 
 
-def check_mutator(ck, fn):
-    st = {"b": 0, "e": 0}
+def mutator_effects(fn):
+    """the mutator as an effect list over symbolic cursors: -> ("ok", delta, constructed keys, destroyed keys) or
+    ("violation", sig, msg, loc); Undecidable when a statement is of no known kind (nothing is concluded from it)"""
+    st = {"b": 0, "e": 0, "bm": True, "em": True}
+    last = {}
     constructed, destroyed = [], []
-    where = "%s(%s)" % (fn.qname, ",".join(p["ty"] for p in fn.params))
     for s in kids(fn.body):
-        if is_assert_stmt(s):
+        if is_assert_stmt(s) or s["k"] == "NullStmt":
             continue
         c = match.call_named(s, ("construct", "construct_at"))
-        if c or s["k"] == "CXXNewExpr":
-            addr = kids(c)[1] if (c and c["callee"]["name"] == "construct") else kids(c or s)[0]
+        placed = s["k"] == "CXXNewExpr" and s.get("placement") == 1 and not s.get("array") and kids(s)      # ::new (address) T(...)
+        if c or placed:
+            addr = kids(s)[0] if placed else kids(c)[1] if c["callee"]["name"] == "construct" else kids(c)[0]
             slot = slot_of_address(addr, st, fn)
             if slot is None:
                 raise dtable.Undecidable("%s: constructed address not understood: %s" % (fn.nloc(s), dtable.describe(addr)))
@@ -156,105 +435,153 @@ def check_mutator(ck, fn):
         u = cursor_update(s, st, fn)
         if u:
             tgt, off, masked = u
-            if not masked:
-                ck.violation("SLOT-CURSOR", fn.qname, "unmasked:" + tgt, "cursor %s is updated without wrapping (& mask_)" % tgt, fn.nloc(s))
-                return
             st[tgt[0]] = off
+            st[tgt[0] + "m"] = masked
+            last[tgt] = s
             continue
         raise dtable.Undecidable("%s: statement not understood in ring-buffer mutator: %s" % (fn.nloc(s), dtable.describe(s)))
+    for tgt in ("begin_", "end_"):
+        if not st[tgt[0] + "m"]:
+            return ("violation", "unmasked:" + tgt, "cursor %s is updated without wrapping (& mask_)" % tgt, fn.nloc(last[tgt]))
     exp = EXPECT.get(fn.name)
     delta = (st["b"], st["e"])
     if exp is not None and delta != exp:
-        ck.violation("SLOT-CURSOR", fn.qname, "delta", "%s moves (begin_,end_) by %s, a %s must move them by %s"
-                     % (fn.name, delta, fn.name, exp), fn.loc)
-        return
-    ck.require(delta in ((0, 1), (-1, 0), (1, 0), (0, -1)), "%s: unexpected cursor movement %s" % (fn.loc, delta))
+        return ("violation", "delta", "%s moves (begin_,end_) by %s, a %s must move them by %s" % (fn.name, delta, fn.name, exp), fn.loc)
+    if delta not in ((0, 1), (-1, 0), (1, 0), (0, -1)):
+        raise dtable.Undecidable("%s: unexpected cursor movement %s" % (fn.loc, delta))
     want_c = {(0, 1): [("e", 0, None)], (-1, 0): [("b", -1, None)]}.get(delta, [])
     want_d = {(1, 0): [("b", 0, None)], (0, -1): [("e", -1, None)]}.get(delta, [])
     got_c = [c.key() for c, _ in constructed]
     got_d = [c.key() for c, _ in destroyed]
     for slot, s in constructed + destroyed:
         if not slot.masked:
-            ck.violation("SLOT-CURSOR", fn.qname, "unmasked-index", "slot index %r is not wrapped (& mask_)" % slot, fn.nloc(s))
-            return
+            return ("violation", "unmasked-index", "slot index %r is not wrapped (& mask_)" % slot, fn.nloc(s))
     if got_c != want_c or got_d != want_d:
         def f(l):
             return "[" + ",".join(repr(Cursor(*k)) for k in l) + "]"
-        ck.violation("SLOT-CURSOR", fn.qname, "slot",
-                     "live range [begin_,end_) changes by %s: must construct %s / destroy %s (pre-state cursors), but constructs %s / destroys %s"
-                     % (delta, f(want_c), f(want_d), f(got_c), f(got_d)), fn.loc)
+        return ("violation", "slot",
+                "live range [begin_,end_) changes by %s: must construct %s / destroy %s (pre-state cursors), but constructs %s / destroys %s"
+                % (delta, f(want_c), f(want_d), f(got_c), f(got_d)), fn.loc)
+    return ("ok", delta, got_c, got_d)
+
+
+def mutator_grid(fn):
+    """the mutator evaluated on every cursor position (within its precondition) of buffers with mask 1, 3, 7: -> None if it always constructs /
+    destroys exactly the slot that enters / leaves [begin_, end_) and leaves both cursors wrapped, else a counterexample"""
+    db, de = EXPECT[fn.name]
+    for m_ in (1, 3, 7):
+        for b_ in range(m_ + 1):
+            for e_ in range(m_ + 1):
+                size_ = (e_ - b_) & m_
+                if (de - db == 1 and size_ + 1 > m_) or (de - db == -1 and size_ < 1):
+                    continue                      # outside the documented precondition (not full / not empty; max_size_ = mask_)
+                _, _, env, made, gone = ring_run(fn, b_, e_, m_)
+                nb, ne = env.get(("field", "begin_")), env.get(("field", "end_"))
+                if not isinstance(nb, int) or not isinstance(ne, int):
+                    raise dtable.Undecidable("%s: cursors cannot be evaluated" % fn.loc)
+                want = ((b_ + db) & m_, (e_ + de) & m_,
+                        [e_] if (db, de) == (0, 1) else [(b_ - 1) & m_] if (db, de) == (-1, 0) else [],
+                        [b_] if (db, de) == (1, 0) else [(e_ - 1) & m_] if (db, de) == (0, -1) else [])
+                got = (nb % M64, ne % M64, made, gone)
+                if got != want:
+                    return dict(b=b_, e=e_, m=m_, got=got, want=want)
+    return None
+
+
+def check_mutator(ck, fn):
+    where = "%s(%s)" % (fn.qname, ",".join(p["ty"] for p in fn.params))
+    try:
+        res = mutator_effects(fn)
+    except dtable.Undecidable:
+        res = None
+    if res is not None and res[0] == "ok":
+        _, delta, got_c, got_d = res
+        ck.ok("SLOT-CURSOR", where, "delta(begin_,end_)=%s constructs %s destroys %s" % (delta, got_c, got_d),
+              sample=dict(rule="SLOT-CURSOR", fn=where, delta=delta, constructed=got_c, destroyed=got_d))
         return
-    ck.ok("SLOT-CURSOR", where, "delta(begin_,end_)=%s constructs %s destroys %s" % (delta, got_c, got_d),
-          sample=dict(rule="SLOT-CURSOR", fn=where, delta=delta, constructed=got_c, destroyed=got_d))
+    # not the usual statement shapes (or an effect list that breaks the rule): decide on all cursor positions of small buffers
+    try:
+        cex = mutator_grid(fn)
+    except dtable.Undecidable:
+        if res is None:
+            raise
+        cex = False                       # the effect list is complete and stands on its own
+    if res is not None:
+        if cex is None:
+            raise dtable.Undecidable("%s: effect list and evaluation of %s disagree (%s)" % (fn.loc, fn.name, res[1]))
+        ck.violation("SLOT-CURSOR", fn.qname, res[1], res[2], res[3])
+        return
+    if cex:
+        g_, w_ = cex["got"], cex["want"]
+        ck.violation("SLOT-CURSOR", fn.qname, "grid",
+                     "for begin_=%d end_=%d mask_=%d %s constructs slots %s / destroys slots %s and leaves begin_=%d end_=%d; the live range "
+                     "convention requires constructing %s / destroying %s and begin_=%d end_=%d"
+                     % (cex["b"], cex["e"], cex["m"], fn.name, g_[2], g_[3], g_[0], g_[1], w_[2], w_[3], w_[0], w_[1]), fn.loc)
+        return
+    ck.ok("SLOT-CURSOR", where, "constructs/destroys the slot entering/leaving [begin_,end_) on every cursor position of buffers with mask 1..7",
+          sample=dict(rule="SLOT-CURSOR", fn=where, evaluated="mask 1,3,7"))
 
 
 def check_accessor(ck, fn):
     rets = [x for x in ir.walk(fn.body) if x["k"] == "ReturnStmt"]
-    ck.require(len(rets) == 1, "%s: single return expected" % fn.loc)
-    e = kids(rets[0])[0]
     where = fn.qname + (" const" if fn.d.get("const") else "")
     st = {"b": 0, "e": 0}
+    e = kids(rets[0])[0] if len(rets) == 1 and kids(rets[0]) else None
+    plain = e is not None and all(is_assert_stmt(s) or s is rets[0] for s in kids(fn.body))      # asserts and one return
     if fn.name == "size":
-        b = match.binop(e, ("&", "%"))
         okk = False
+        b = match.binop(e, ("&", "%")) if plain else None
         if b and (match.this_field(b[2]) in ("mask_", "capacity_")):
             bb = match.binop(b[1], ("-",))
             okk = bool(bb and match.this_field(bb[1]) == "end_" and match.this_field(bb[2]) == "begin_")
         if not okk:
-            cex = accessor_grid(fn, e, lambda b_, e_, m_, i_: (e_ - b_) & m_, index=False)
+            cex = accessor_grid(fn, lambda b_, e_, m_, i_: (e_ - b_) & m_, index=False)
             if cex:
                 ck.violation("ACCESSOR-CONVENTION", fn.qname, "size", "size() is not (end_ - begin_) wrapped: %s gives %s for begin_=%d end_=%d mask_=%d"
-                             % (dtable.describe(e), cex[3], cex[0], cex[1], cex[2]), fn.loc)
+                             % (dtable.describe(e) if e is not None else "it", cex[3], cex[0], cex[1], cex[2]), fn.loc)
                 return
         ck.ok("ACCESSOR-CONVENTION", where, "(end_ - begin_) & mask_")
         return
-    slot = slot_of_lvalue(e, st, fn)
+    slot = slot_of_lvalue(e, st, fn) if plain else None
     want = {"front": ("b", 0, None), "back": ("e", -1, None), "operator[]": ("b", 0, fn.params[0]["name"] if fn.params else None)}[fn.name]
     if slot is None or slot.key() != want or not slot.masked:
         # not the usual spelling: decide on all cursor positions of small buffers
         spec = {"front": lambda b_, e_, m_, i_: b_ & m_, "back": lambda b_, e_, m_, i_: (e_ - 1) & m_,
                 "operator[]": lambda b_, e_, m_, i_: (b_ + i_) & m_}[fn.name]
-        cex = accessor_grid(fn, e, spec, index=True)
+        cex = accessor_grid(fn, spec, index=True)
         if cex:
             ck.violation("ACCESSOR-CONVENTION", fn.qname, "slot", "%s returns %s: slot %s for begin_=%d end_=%d mask_=%d%s, the live range convention requires data_[%r & mask_]"
-                         % (fn.name, dtable.describe(e), cex[3], cex[0], cex[1], cex[2], (" i=%d" % cex[4]) if fn.params else "", Cursor(*want)), fn.loc)
+                         % (fn.name, dtable.describe(e) if e is not None else "an element", cex[3], cex[0], cex[1], cex[2], (" i=%d" % cex[4]) if fn.params else "",
+                            Cursor(*want)), fn.loc)
             return
         ck.ok("ACCESSOR-CONVENTION", where, "returns the slot of the convention on every cursor position of buffers with mask 0..15")
         return
     ck.ok("ACCESSOR-CONVENTION", where, "returns data_[%r]" % slot)
 
 
-def accessor_grid(fn, e, spec, index):
-    """evaluates the returned expression (its data_ index if `index`) for every (begin_, end_, mask_, i) of small ring
-    buffers: -> None if it always equals spec, else a counterexample (b, e, m, got, i); Undecidable if not evaluable"""
-    from engine import skel
-    ix = e
-    if index:
-        e0 = strip_casts(e)
-        ip = match.index_parts(e0)
-        if not ip or match.this_field(ip[0]) != "data_":
-            d_ = match.deref_of(e0)
-            pl = match.binop(d_, ("+",)) if d_ is not None else None
-            if pl and match.this_field(pl[1]) == "data_":
-                ix = pl[2]
-            else:
-                raise dtable.Undecidable("%s: returned element not understood: %s" % (fn.loc, dtable.describe(e)))
-        else:
-            ix = ip[1]
-    M64_ = 2 ** 64
+def accessor_grid(fn, spec, index):
+    """evaluates the accessor (the slot of the element it returns if `index`, else its value) for every (begin_, end_, mask_, i)
+    of small ring buffers: -> None if it always equals spec, else a counterexample (b, e, m, got, i); Undecidable if the
+    body cannot be evaluated"""
     for m_ in (0, 1, 3, 7, 15):
         for b_ in range(m_ + 1):
             for e_ in range(m_ + 1):
                 for i_ in (range(m_ + 1) if fn.params else [0]):
-                    env = {("field", "begin_"): b_, ("field", "end_"): e_, ("field", "mask_"): m_, ("field", "capacity_"): m_ + 1}
-                    if fn.params:
-                        env[fn.params[0]["did"]] = i_
-                    sk = skel.Skel(fn, env, None, None)
-                    got = sk.ev(ix)
-                    if not isinstance(got, int):
-                        raise dtable.Undecidable("%s: %s cannot be evaluated" % (fn.loc, dtable.describe(ix)))
-                    got %= M64_
-                    if got != spec(b_, e_, m_, i_) % M64_:
+                    if index and ((e_ - b_) & m_) <= i_:
+                        continue                  # outside the documented precondition (!empty() / i < size())
+                    ret, key, _, made, gone = ring_run(fn, b_, e_, m_, i_)
+                    if made or gone:
+                        raise dtable.Undecidable("%s: accessor constructs or destroys elements" % fn.loc)
+                    if index:
+                        got = _slot_of_key(key)
+                        if got is None:
+                            raise dtable.Undecidable("%s: returned element not understood" % fn.loc)
+                    else:
+                        got = ret
+                        if isinstance(got, bool) or not isinstance(got, int):
+                            raise dtable.Undecidable("%s: returned value cannot be evaluated" % fn.loc)
+                    got %= M64
+                    if got != spec(b_, e_, m_, i_) % M64:
                         return (b_, e_, m_, got, i_)
     return None
 
@@ -269,51 +596,152 @@ def this_calls(fn, names):
     return out
 
 
+RB_OBSERVERS = ("size", "empty", "max_size", "capacity", "front", "back", "operator[]", "copy_to", "save")   # do not change the buffer
+
+
+def dealloc_calls(fn):
+    """the storage releases of fn: [(call, pointer argument, count argument)] for alloc_.deallocate(p, n) and
+    alloc_traits::deallocate(alloc_, p, n); a deallocate call of another shape is Undecidable"""
+    out = []
+    for x in ir.walk(fn.body):
+        if "callee" not in x or x["callee"]["name"] != "deallocate":
+            continue
+        a = kids(x)
+        if len(a) == 3 and match.this_field(a[0]) == "alloc_":
+            out.append((x, a[1], a[2]))
+        elif x.get("member_call") and a and strip_casts(a[0])["k"] == "This":
+            continue                                     # RingBuffer::deallocate() itself: judged in its own body
+        else:
+            raise dtable.Undecidable("%s: deallocate call not understood: %s" % (fn.nloc(x), dtable.describe(x)))
+    return out
+
+
+def _this_call(n, nm):
+    n = strip_casts(n)
+    return bool(n is not None and "callee" in n and n["callee"]["name"] == nm and n.get("member_call") and kids(n) and strip_casts(kids(n)[0])["k"] == "This")
+
+
+def empty_test(cond):
+    """the truth value of `cond` under which the ring buffer holds no element, or None: empty(), begin_ == end_, size() == 0 and
+    their negations / mirror images, size() as a condition"""
+    c = strip_casts(cond)
+    if c is None:
+        return None
+    if c["k"] == "UnaryOperator" and c.get("op") == "!" and kids(c):
+        inner = empty_test(kids(c)[0])
+        return None if inner is None else not inner
+    if _this_call(c, "empty"):
+        return True
+    b = match.binop(c, ("==", "!=", ">", "<"))
+    if b:
+        op, l, r = b
+        if op in ("==", "!=") and {match.this_field(l), match.this_field(r)} == {"begin_", "end_"}:
+            return op == "=="
+        if _this_call(l, "size") and const_int(r) == 0:
+            return {"==": True, "!=": False, ">": False}.get(op)
+        if _this_call(r, "size") and const_int(l) == 0:
+            return {"==": True, "!=": False, "<": False}.get(op)
+        return None
+    if _this_call(c, "size"):
+        return False
+    return None
+
+
+def drain_loops(fn):
+    """loops that pop until the buffer is empty (clear() written out): while (!empty()) pop_front(); and the other spellings
+    of the condition; -> [(loop, condition)]"""
+    out = []
+    for lp in ir.walk(fn.body):
+        if lp["k"] not in ("WhileStmt", "ForStmt"):
+            continue
+        init, cond, inc, body = match.loop_parts(lp)
+        if init is not None or inc is not None or cond is None:
+            continue
+        stmts = [s for s in (kids(body) if body is not None and body["k"] == "CompoundStmt" else [body]) if s is not None and s["k"] != "NullStmt"]
+        if len(stmts) == 1 and (_this_call(stmts[0], "pop_front") or _this_call(stmts[0], "pop_back")) and empty_test(cond) is False:
+            out.append((lp, cond))
+    return out
+
+
 def check_clear_before_free(ck, fn):
     g = cfgm.CFG(fn)
-    deallocs = [x for x in ir.walk(fn.body) if "callee" in x and x["callee"]["name"] == "deallocate"
-                and x.get("member_call") and match.this_field(kids(x)[0]) == "alloc_"]
-    clears = this_calls(fn, ("clear",))
+    defs = local_defs(fn)
+    clears = this_calls(fn, ("clear",)) + [cond for _, cond in drain_loops(fn)]      # a drain loop has emptied the buffer when its condition fails
     pushes = this_calls(fn, ("push_back", "push_front", "emplace_back", "emplace_front"))
-    for d in deallocs:
-        pd = g.pos(d)
+
+    def effect(n):
+        if "callee" in n and n.get("member_call") and kids(n) and strip_casts(kids(n)[0])["k"] == "This":
+            if n["callee"]["name"] == "clear":
+                return "gen"
+            if n["callee"]["name"] in ("push_back", "push_front", "emplace_back", "emplace_front", "load", "allocate") or \
+                    (not n["callee"].get("const") and n["callee"]["name"] not in RB_OBSERVERS + ("pop_front", "pop_back", "deallocate", "move_to")):
+                return "kill"
+        return None
+    # "no live element": after clear(), or on the edge of a test that found the buffer empty (if (!empty()) clear(); / a drain loop)
+    emptied = MustFact(fn, g, lambda c, truth: empty_test(c) is not None and empty_test(c) == truth, effect)
+    for d, parg, narg in dealloc_calls(fn):
+        pd = P(g, d)
         ck.require(pd is not None, "%s: deallocate not in CFG" % fn.nloc(d))
-        args = kids(d)[1:]
-        if not (match.this_field(args[0]) == "data_" and match.this_field(args[1]) == "capacity_"):
+        cp, cn = captured_field(fn, g, parg, defs, pd), captured_field(fn, g, narg, defs, pd)
+        if cp is None or cn is None:
+            raise dtable.Undecidable("%s: arguments of deallocate not understood: %s" % (fn.nloc(d), dtable.describe(d)))
+        if cp[0] != "data_" or cn[0] != "capacity_":
             ck.violation("CLEAR-BEFORE-FREE", fn.qname, "dealloc-args", "deallocate is not called with (data_, capacity_): %s" % dtable.describe(d), fn.nloc(d))
             continue
-        doms = [c for c in clears if g.pos(c) and g.dominates(g.pos(c), pd)]
-        if not doms:
+        doms = [c for c in clears if P(g, c) and g.dominates(P(g, c), pd)]
+        if not doms and emptied.before(d) is True:
+            doms = [c for c in clears if P(g, c) and g.reachable(P(g, c), pd)]          # emptied on every path, by a clear() or by a test
+        elif not doms:
+            # absence only in a closed world: nothing that could destroy elements lies on a path to the release
+            may = [c for c in clears if P(g, c) and g.reachable(P(g, c), pd)]
+            may += [c for c in this_calls(fn, None) if c["callee"]["name"] not in RB_OBSERVERS + ("clear",) and not c["callee"].get("const")
+                    and P(g, c) and g.reachable(P(g, c), pd)]
+            may += [c for c in ir.walk(fn.body) if (match.call_named(c, ("destroy", "destroy_at", "destroy_n")) or c["k"] == "CXXPseudoDestructorExpr"
+                                                   or ("callee" in c and c["callee"]["name"].startswith("~")))
+                    and P(g, c) and g.reachable(P(g, c), pd)]
+            if may:
+                # a path to the release that passes none of them and no edge on which the buffer was found empty - and on which every
+                # branch that decides whether one of them runs is an understood emptiness test - is a counterexample
+                empty_edges = []
+                for bid, blk in g.blocks.items():
+                    cnd = fn.byid(blk["cond"]) if blk.get("cond") is not None else None
+                    t_ = empty_test(cnd) if cnd is not None else None
+                    if t_ is not None and len(blk.get("succ", [])) == 2 and blk["succ"][0 if t_ else 1] is not None:
+                        empty_edges.append((bid, blk["succ"][0 if t_ else 1]))
+                mpos = [P(g, c) for c in may]
+                path = g.path_between_avoiding((g.entry, -1), pd, mpos, blocked_edges=empty_edges)
+                understood = path is not None
+                for b1, b2 in zip(path or [], (path or [])[1:]):
+                    succ = [s for s in g.succ[b1] if s != b2]
+                    if succ and {m[0] for m in mpos} & g.reach_blocks(succ):
+                        cnd = fn.byid(g.blocks[b1]["cond"]) if g.blocks[b1].get("cond") is not None else None
+                        if cnd is None or empty_test(cnd) is None:
+                            understood = False
+                if not understood:
+                    raise dtable.Undecidable("%s: no clear() on every path to deallocate, but %s may destroy the elements: not understood"
+                                             % (fn.nloc(d), dtable.describe(may[0])))
             ck.violation("CLEAR-BEFORE-FREE", fn.qname, "no-clear", "storage is released without destroying the live elements first (no clear() on every path to deallocate)", fn.nloc(d))
             continue
-        bad = [p for p in pushes if g.pos(p) and any(g.reachable(g.pos(c), g.pos(p)) for c in doms) and g.reachable(g.pos(p), pd)]
-        if bad:
+        bad = [p for p in pushes if P(g, p) and any(g.reachable(P(g, c), P(g, p)) for c in doms) and g.reachable(P(g, p), pd)]
+        if bad and emptied.before(d) is not True:
             ck.violation("CLEAR-BEFORE-FREE", fn.qname, "push-between", "elements are inserted between clear() and deallocate", fn.nloc(bad[0]))
             continue
-        # capacity_/data_ must still describe the block being released
-        stale = []
-        for x in ir.walk(fn.body):
-            b = match.binop(x, ("=",))
-            if b and match.this_field(b[1]) in ("capacity_", "data_") and g.pos(x) and g.reachable(g.pos(x), pd) and \
-                    not any(g.pos(d2) and g.reachable(g.pos(x), g.pos(d2)) is False for d2 in []):
-                # a write that reaches this deallocate without an intervening allocate
-                stale.append(x)
-        # writes after an earlier deallocate+allocate pair are fine only if they precede *another* deallocate; here
-        # a write reaching this deallocate is stale unless it is followed by an allocate assigned to data_
+        # capacity_/data_ must still describe the block being released: a write that reaches the point where the argument
+        # is read is stale, unless the block is re-allocated in between
+        def assigns(fld):
+            return [x for x in ir.walk(fn.body) if match.binop(x, ("=",)) and match.this_field(match.binop(x, ("=",))[1]) == fld and P(g, x)]
         real = []
-        for x in stale:
-            fld = match.this_field(match.binop(x, ("=",))[1])
-            rhs = match.binop(x, ("=",))[2]
-            if fld == "data_" and match.call_named(rhs, ("allocate",)):
+        for x in assigns("data_"):
+            if g.reachable(P(g, x), cp[1]) and not match.call_named(unwrap(match.binop(x, ("=",))[2]), ("allocate",)):
+                real.append(x)
+        for x in assigns("capacity_"):
+            if not g.reachable(P(g, x), cn[1]):
                 continue
-            if fld == "capacity_":
-                # fine if data_ is re-allocated after it and before the deallocate
-                re = [y for y in ir.walk(fn.body) if match.binop(y, ("=",)) and match.this_field(match.binop(y, ("=",))[1]) == "data_"
-                      and match.call_named(match.binop(y, ("=",))[2], ("allocate",)) and g.pos(y)
-                      and g.dominates(g.pos(x), g.pos(y)) and g.dominates(g.pos(y), pd)]
-                if re:
-                    continue
-            real.append(x)
+            # fine if data_ is re-allocated after it and before the deallocate
+            re_ = [y for y in assigns("data_") if match.call_named(unwrap(match.binop(y, ("=",))[2]), ("allocate",))
+                   and g.dominates(P(g, x), P(g, y)) and g.dominates(P(g, y), pd)]
+            if not re_:
+                real.append(x)
         if real:
             ck.violation("CLEAR-BEFORE-FREE", fn.qname, "stale-capacity", "%s is overwritten before the old block is released with it"
                          % match.this_field(match.binop(real[0], ("=",))[1]), fn.nloc(real[0]))
@@ -323,52 +751,229 @@ def check_clear_before_free(ck, fn):
 
 FIELDS_MOVED = ("max_size_", "capacity_", "mask_", "data_", "begin_", "end_")
 
+# calls that only read what they are given (by value or const reference)
+READ_ONLY_CALLS = ("deallocate", "allocate", "min", "max", "round_up_to_power_of_two", "create_array", "destroy_array", "construct", "destroy",
+                   "construct_at", "destroy_at", "addressof", "__addressof", "fill", "fill_n", "copy", "copy_n", "move_n", "uninitialized_move",
+                   "uninitialized_copy", "move", "move_backward", "copy_backward", "operator new", "operator delete", "operator==", "operator!=",
+                   "size", "empty", "max_size", "capacity", "front", "back", "operator[]", "at", "data", "begin", "end", "cbegin", "cend")
 
-def field_writes(fn, objpred):
-    """assignments (incl. ctor initialisers and chained a = b = 0) to fields of an object: {field: [rhs...]}"""
-    out = {}
-    for i in fn.inits:
-        if i.get("field"):
-            out.setdefault(("this", i["field"]), []).append(i["e"])
-    for x in ir.walk(fn.body):
-        b = match.binop(x, ("=",))
-        if b:
-            f = match.field_of(b[1])
-            if f:
-                base = strip_casts(f[0])
-                who = "this" if base["k"] == "This" else (ref_of(base) if base["k"] == "DeclRefExpr" else None)
-                if who is not None:
+
+class FieldOps:
+    """what a function does to the fields of *this ("this") and of named objects (declaration id):
+    .seq      ordered (who, field, value expression) of the assignments, constructor initialisers and std::exchange calls
+    .w        {(who, field): [value expressions]}
+    .unknown  {(who, field)} touched by an operation of no known kind (compound assignment, passed to a call that may write it)
+    .whole    {who} objects handed as a whole to a call that may change them (swap(rb), helper(rb), *this = ...)"""
+
+    def __init__(self, fn):
+        self.fn = fn
+        self.seq, self.unknown, self.whole = [], set(), set()
+        self.field_alias, self.obj_alias = {}, {}      # reference locals: T& f = obj.field;  /  Obj& o = obj;
+        for x in fn.nodes():
+            if x["k"] == "VarDecl" and x.get("did") is not None and kids(x) and kids(x)[0] is not None and (x.get("ty") or "").rstrip().endswith("&"):
+                t = self.target(kids(x)[0])
+                if t:
+                    self.field_alias[x["did"]] = t
+                elif ref_of(unwrap(kids(x)[0])) is not None:
+                    d0 = ref_of(unwrap(kids(x)[0]))
+                    self.obj_alias[x["did"]] = self.obj_alias.get(d0, d0)
+            if x["k"] == "UnaryOperator" and x.get("op") == "&" and kids(x) and ref_of(kids(x)[0]) is not None:
+                par = fn.parent(x)
+                while par is not None and par["k"] in ("ImplicitCastExpr", "ParenExpr"):
+                    par = fn.parent(par)
+                if not (par is not None and par["k"] in ("BinaryOperator", "CXXOperatorCallExpr") and par.get("op") in ("==", "!=")):
+                    self.whole.add(ref_of(kids(x)[0]))       # the object's address escapes
+        for i in fn.inits:
+            if i.get("field") and i.get("e") is not None:
+                self.seq.append(("this", i["field"], i["e"]))
+            elif i.get("e") is not None and not i.get("field"):
+                self.whole.add("this")                 # delegating / base initialiser
+        for x in fn.nodes():
+            if x["k"] == "VarDecl" and x.get("did") is not None and kids(x) and kids(x)[0] is not None:
+                if x["did"] not in self.field_alias and x["did"] not in self.obj_alias:
+                    self.seq.append(("local", x["did"], kids(x)[0]))
+                continue
+            b = match.binop(x, ("=",))
+            if b:
+                t = self.target(b[1])
+                if t:
                     rhs = b[2]
-                    # chained assignment: value is that of the innermost rhs
-                    while match.binop(rhs, ("=",)):
+                    while match.binop(rhs, ("=",)):       # chained assignment: value is that of the innermost rhs
                         rhs = match.binop(rhs, ("=",))[2]
-                    out.setdefault((who, f[1]), []).append(rhs)
-    return out
+                    self.seq.append((t[0], t[1], rhs))
+                elif strip_casts(b[1])["k"] == "UnaryOperator" and strip_casts(b[1]).get("op") == "*" and strip_casts(kids(strip_casts(b[1]))[0])["k"] == "This":
+                    self.whole.add("this")             # *this = ...
+                continue
+            w = match.unop(x, ("++", "--")) or (match.binop(x, ASSIGN_OPS[1:]) if x["k"] in ("CompoundAssignOperator", "CXXOperatorCallExpr") else None)
+            if w:
+                t = self.target(w[1])
+                if t:
+                    self.unknown.add(t)
+                continue
+            if x["k"] in ("CXXConstructExpr", "CXXTemporaryObjectExpr"):
+                # T tmp(std::move(obj)) / T(std::move(obj.f)): a move construction may empty what it is given
+                for a in kids(x):
+                    raw = match.strip_conv(a)
+                    if raw is not None and raw["k"] == "CallExpr" and raw["callee"]["name"] in TRANSPARENT and raw["callee"]["name"] != "as_const":
+                        t = self.target(raw)
+                        if t:
+                            self.unknown.add(t)
+                        elif ref_of(unwrap(raw)) is not None:
+                            d0 = ref_of(unwrap(raw))
+                            self.whole.add(self.obj_alias.get(d0, d0))
+                        elif unwrap(raw) is not None and unwrap(raw)["k"] == "UnaryOperator" and unwrap(raw).get("op") == "*" and \
+                                strip_casts(kids(unwrap(raw))[0])["k"] == "This":
+                            self.whole.add("this")
+                continue
+            if "callee" not in x or x["k"] not in ("CallExpr", "CXXMemberCallExpr", "CXXOperatorCallExpr"):
+                continue
+            nm = x["callee"]["name"]
+            args = kids(x)
+            if nm in TRANSPARENT and len(args) == 1:
+                continue
+            if nm == "exchange" and len(args) == 2:
+                t = self.target(args[0])
+                if t:
+                    self.seq.append((t[0], t[1], args[1]))
+                    continue
+            if x["k"] == "CXXOperatorCallExpr" and x.get("op") in ("==", "!=", "<", ">", "<=", ">=", "[]", "*", "->"):
+                continue
+            cal = fn.tu.by_did.get(x["callee"].get("did")) if getattr(fn, "tu", None) is not None else None
+            for j, a in enumerate(args):
+                if a is None:
+                    continue
+                if x.get("member_call") and j == 0:
+                    # the object of a member call
+                    if x["callee"].get("const") or nm in READ_ONLY_CALLS:
+                        continue
+                    t = self.target(a)
+                    if t:
+                        if not (t == ("this", "alloc_")):
+                            self.unknown.add(t)
+                    elif ref_of(unwrap(a)) is not None:
+                        self.whole.add(self.obj_alias.get(ref_of(unwrap(a)), ref_of(unwrap(a))))
+                    continue
+                if nm in READ_ONLY_CALLS:
+                    continue
+                if cal is not None:
+                    pj = j - (1 if x.get("member_call") else 0)
+                    ty = (cal.params[pj].get("ty") or "").rstrip() if 0 <= pj < len(cal.params) else "&"
+                    if not ty.endswith("&") and not ty.endswith("*"):
+                        continue                       # by value
+                    if ty.endswith("&") and not ty.endswith("&&") and ty.startswith("const "):
+                        continue                       # const reference
+                t = self.target(a)
+                if t:
+                    self.unknown.add(t)
+                    continue
+                a0 = unwrap(a)
+                if a0 is not None and a0["k"] == "UnaryOperator" and a0.get("op") in ("&", "*") and kids(a0):
+                    t = self.target(kids(a0)[0])
+                    if t:
+                        self.unknown.add(t)
+                        continue
+                    a0 = unwrap(kids(a0)[0])
+                if a0 is not None and a0["k"] == "This":
+                    self.whole.add("this")
+                elif ref_of(a0) is not None:
+                    self.whole.add(self.obj_alias.get(ref_of(a0), ref_of(a0)))
+        self.w = {}
+        for who, f, v in self.seq:
+            self.w.setdefault((who, f), []).append(v)
+
+    def target(self, e):
+        """(who, field) of an lvalue that is a field of *this / of a named object, through reference locals"""
+        e = unwrap(e)
+        d = ref_of(e)
+        if d is not None and d in self.field_alias:
+            return self.field_alias[d]
+        f = match.field_of(e)
+        if not f:
+            return None
+        base = unwrap(f[0])
+        if base is not None and base["k"] == "UnaryOperator" and base.get("op") == "*" and kids(base):
+            base = unwrap(kids(base)[0])               # (*this).f
+        if base is None:
+            return None
+        if base["k"] == "This":
+            return ("this", f[1])
+        if base["k"] == "DeclRefExpr":
+            return (self.obj_alias.get(base["ref"]["id"], base["ref"]["id"]), f[1])
+        return None
+
+    def opaque(self, who, field=None):
+        """an operation of unknown kind may have written who.field"""
+        return who in self.whole or (field is not None and (who, field) in self.unknown)
+
+    def values(self, defs=None):
+        """the straight-line value of every written field after the function, as a term:
+        ("c", k) constant | ("null",) | ("init", who, field) value the field had on entry | ("?", n) not understood"""
+        env = {}
+
+        def term(e):
+            e = unwrap(e)
+            if e is None:
+                return ("?", 0)
+            if e["k"] == "CallExpr" and e["callee"]["name"] == "exchange" and len(kids(e)) == 2:
+                return term(kids(e)[0])
+            if e["k"] in ("NullPtr", "CXXNullPtrLiteralExpr", "GNUNullExpr"):
+                return ("null",)
+            k = const_int(e)
+            if k is not None:
+                return ("c", k)
+            if e["k"] in ("InitListExpr", "CXXScalarValueInitExpr", "ImplicitValueInitExpr") and not kids(e):
+                return ("c", 0)
+            t = self.target(e)
+            if t:
+                return env.get(t, ("init",) + t)
+            d = ref_of(e)
+            if d is not None and defs and d in defs and ("local", d) in env:
+                return env[("local", d)]                       # a local that keeps the value it got at its declaration
+            return ("?", e["id"])
+        # std::exchange(a, v) used as a value reads a before it writes it: handle the pair value-then-write in walk order
+        for who, f, v in self.seq:
+            env[(who, f)] = term(v)
+        return env
 
 
 def check_moved(ck, fn):
     rb = fn.params[0]["did"]
-    w = field_writes(fn, None)
+    ops = FieldOps(fn)
+    w = ops.w
+    defs = local_defs(fn)
     miss = [f for f in FIELDS_MOVED if ("this", f) not in w]
     if miss:
+        if any(ops.opaque("this", f) or ops.opaque(rb, f) for f in miss):
+            raise dtable.Undecidable("%s: %s not assigned, but handed to an operation that is not understood" % (fn.loc, miss))
         ck.violation("MOVED-EMPTY", fn.qname, "takes:" + ",".join(miss), "move does not take over %s from the source" % miss, fn.loc)
         return
+    val = ops.values(defs)
     for f in FIELDS_MOVED:
-        rhs = w[("this", f)][-1]
-        ff = match.field_of(rhs)
-        if not (ff and ff[1] == f and ref_of(ff[0]) == rb):
-            ck.violation("MOVED-EMPTY", fn.qname, "takes:" + f, "%s is not taken from the source's %s (%s)" % (f, f, dtable.describe(rhs)), fn.loc)
+        v = val[("this", f)]
+        if v == ("init", rb, f):
+            continue
+        if v[0] == "?" or ops.opaque("this", f):
+            raise dtable.Undecidable("%s: value given to %s in the move not understood: %s" % (fn.loc, f, dtable.describe(w[("this", f)][-1])))
+        ck.violation("MOVED-EMPTY", fn.qname, "takes:" + f, "%s is not taken from the source's %s (%s)" % (f, f, dtable.describe(w[("this", f)][-1])), fn.loc)
+        return
+    # state the source is left in
+    d = val.get((rb, "data_"))
+    if d is None or d[0] == "?" or (d not in (("null",), ("c", 0)) and ops.opaque(rb, "data_")):
+        if d is None and not ops.opaque(rb, "data_"):
+            ck.violation("MOVED-EMPTY", fn.qname, "src-data", "moved-from buffer keeps its data_ pointer (double ownership)", fn.loc)
             return
-    d = w.get((rb, "data_"))
-    okd = d and (strip_casts(d[-1])["k"] == "NullPtr" or const_int(d[-1]) == 0)
-    bg, en = w.get((rb, "begin_")), w.get((rb, "end_"))
-    oke = bg and en and const_int(bg[-1]) is not None and const_int(bg[-1]) == const_int(en[-1])
-    if not okd:
+        raise dtable.Undecidable("%s: what the move leaves in the source's data_ is not understood" % fn.loc)
+    if d not in (("null",), ("c", 0)):
         ck.violation("MOVED-EMPTY", fn.qname, "src-data", "moved-from buffer keeps its data_ pointer (double ownership)", fn.loc)
         return
-    if not oke:
+    bg, en = val.get((rb, "begin_"), ("init", rb, "begin_")), val.get((rb, "end_"), ("init", rb, "end_"))
+    if bg != en:
+        if bg[0] == "?" or en[0] == "?" or ops.opaque(rb, "begin_") or ops.opaque(rb, "end_"):
+            raise dtable.Undecidable("%s: cursors the move leaves in the source are not understood" % fn.loc)
         ck.violation("MOVED-EMPTY", fn.qname, "src-cursors", "moved-from buffer is not left empty (begin_ == end_)", fn.loc)
         return
+    if bg[0] == "?":
+        raise dtable.Undecidable("%s: cursors the move leaves in the source are not understood" % fn.loc)
     ck.ok("MOVED-EMPTY", fn.full.split("::")[-1] + ("(move-ctor)" if fn.kind == "ctor" else "(move-assign)"),
           "takes all 6 fields; source: data_=nullptr, begin_==end_")
 
@@ -376,93 +981,147 @@ def check_moved(ck, fn):
 def check_copy_loop(ck, fn, tu=None):
     """COPY-ELEMENTS: the copy constructor / copy assignment is evaluated on its skeleton for a source of n = 0..3 elements
     (both outcomes of every data-dependent branch): it must push_back(rb[0]) ... push_back(rb[n-1]) in this order, and the
-    assignment must clear() before it resets its cursors"""
-    from engine import skel
+    assignment must clear() before it resets its cursors.  Closed world: an element construction by other means than
+    push_back / emplace_back, or a call of unknown kind on the source, is Undecidable."""
     rb = fn.params[0]["did"]
-    bad = None
-    for n in range(4):
-        for choice in (True, False):
-            pushed = []
+    results = {}
 
-            def event(e, sk, n=n):
-                if "callee" in e and e.get("member_call") and kids(e):
+    def run_one(n, choice):
+        pushed = []
+        asked = [0]
+
+        def is_src(obj, sk):
+            return ref_of(obj) == rb or sk.lvalue(obj) == rb
+
+        def event(e, sk):
+            if is_assert_stmt(e):
+                return None
+            if e["k"] in ("CXXNewExpr",):
+                raise dtable.Undecidable("%s: elements are constructed by placement new: not evaluated" % sk.fn.nloc(e))
+            if "callee" in e:
+                nm = e["callee"]["name"]
+                if e.get("member_call") and kids(e):
                     obj = strip_casts(kids(e)[0])
-                    nm = e["callee"]["name"]
-                    if ref_of(obj) == rb or sk.lvalue(obj) == rb:
-                        if nm in ("size",):
+                    if is_src(obj, sk):
+                        if nm == "size":
                             return n
                         if nm == "empty":
                             return n == 0
                         if nm in ("operator[]", "at") and len(kids(e)) == 2:
                             i_ = sk.ev(kids(e)[1])
-                            return ("RB", i_) if isinstance(i_, int) else ("RB", "?")
-                        return None
+                            return ("RB", i_) if isinstance(i_, int) and not isinstance(i_, bool) else ("RB", "?")
+                        if nm in ("max_size", "capacity"):
+                            return None
+                        if nm == "front" and len(kids(e)) == 1:
+                            return ("RB", 0) if n > 0 else ("RB", "?")
+                        if nm == "back" and len(kids(e)) == 1:
+                            return ("RB", n - 1) if n > 0 else ("RB", "?")
+                        raise dtable.Undecidable("%s: call of %s on the source of the copy is not understood" % (sk.fn.nloc(e), nm))
                     if obj["k"] == "This":
                         if nm in ("push_back", "emplace_back") and len(kids(e)) == 2:
                             pushed.append(sk.ev(kids(e)[1]))
                             return None
+                        if nm in ("clear", "allocate", "deallocate", "size", "empty", "max_size", "capacity"):
+                            return None                        # no element is copied there
                         cal = sk.tu.by_did.get(e["callee"].get("did")) if sk.tu is not None else None
-                        if cal is not None and any("callee" in y and y["callee"]["name"] in ("push_back", "emplace_back") for y in cal.nodes()):
-                            return NotImplemented          # a helper that may hold the loop: let the skeleton enter it
-                        return None                        # clear(), allocate(), ...: no element is copied there
-                if e["k"] == "CXXOperatorCallExpr" and e.get("op") == "[]" and len(kids(e)) == 2 and (ref_of(kids(e)[0]) == rb or sk.lvalue(kids(e)[0]) == rb):
-                    i_ = sk.ev(kids(e)[1])
-                    return ("RB", i_) if isinstance(i_, int) else ("RB", "?")
-                if e["k"] in ("BinaryOperator",) and e.get("op") in ("==", "!=") and any(strip_casts(x)["k"] == "This" for x in kids(e)):
-                    return e["op"] == "!="                 # this != &rb
-                return NotImplemented
-            sk = skel.Skel(fn, {}, None, event, max_iter=16)
-            sk.unknown_cond = lambda c, sk_, choice=choice: choice
-            try:
-                sk.run(kids(fn.body))
-            except skel.Return:
-                pass
-            want = [("RB", i) for i in range(n)]
-            if pushed != want and bad is None:
-                bad = (n, pushed)
-    if bad:
-        n, pushed = bad
+                        if cal is not None and cal.body is not None and cal.did != sk.fn.did and sk.depth < 5 and len(kids(e)) - 1 == len(cal.params):
+                            return NotImplemented              # a helper that may hold the loop: the skeleton enters it
+                        raise dtable.Undecidable("%s: call of %s in the copy is not understood" % (sk.fn.nloc(e), nm))
+                    return NotImplemented                      # alloc_.allocate(...) and the like
+                if nm in ("construct", "construct_at", "destroy", "destroy_at") or nm.startswith("uninitialized_"):
+                    raise dtable.Undecidable("%s: elements are constructed by %s, not by push_back: not evaluated" % (sk.fn.nloc(e), nm))
+            if e["k"] == "CXXOperatorCallExpr" and e.get("op") == "[]" and len(kids(e)) == 2 and is_src(kids(e)[0], sk):
+                i_ = sk.ev(kids(e)[1])
+                return ("RB", i_) if isinstance(i_, int) and not isinstance(i_, bool) else ("RB", "?")
+            if e["k"] in ("BinaryOperator",) and e.get("op") in ("==", "!=") and any(strip_casts(x)["k"] == "This" for x in kids(e)):
+                return e["op"] == "!="                 # this != &rb
+            return NotImplemented
+        sk = skel.Skel(fn, {}, None, event, max_iter=16)
+
+        def cond(c, sk_):
+            asked[0] += 1
+            return choice
+        sk.unknown_cond = cond
+        try:
+            sk.run(kids(fn.body))
+        except skel.Return:
+            pass
+        return pushed, asked[0]
+    definite = None
+    unclear = None
+    for n in range(4):
+        want = [("RB", i) for i in range(n)]
+        outcomes = []
+        for choice in (True, False):
+            pushed, asked = run_one(n, choice)
+            if any(not (isinstance(p, tuple) and len(p) == 2 and p[0] == "RB" and isinstance(p[1], int)) for p in pushed):
+                outcomes.append("?")
+            else:
+                outcomes.append("ok" if pushed == want else "bad")
+            if outcomes[-1] != "ok" and unclear is None:
+                unclear = (n, pushed)
+            if not asked:
+                outcomes.append(outcomes[-1])
+                break
+        if all(o == "bad" for o in outcomes) and definite is None:
+            definite = (n, run_one(n, True)[0])
+    if definite:
+        n, pushed = definite
         ck.violation("COPY-ELEMENTS", fn.qname, "loop", "copy does not push_back(rb[i]) for every i in [0, rb.size()): a source of %d elements yields %s"
                      % (n, [("rb[%s]" % p[1]) if isinstance(p, tuple) and p and p[0] == "RB" else "?" for p in pushed]), fn.loc)
         return
+    if unclear:
+        raise dtable.Undecidable("%s: what the copy appends for a source of %d elements depends on a branch or a value that is not understood" % (fn.loc, unclear[0]))
     if fn.kind != "ctor":
         g = cfgm.CFG(fn)
         w = [x for x in ir.walk(fn.body) if match.binop(x, ("=",)) and match.this_field(match.binop(x, ("=",))[1]) in ("begin_", "end_")]
-        cl = this_calls(fn, ("clear",))
+        cl = [c for c in this_calls(fn, ("clear",)) + [cond for _, cond in drain_loops(fn)] if P(g, c)]
         if not cl:
             raise dtable.Undecidable("%s: clear() of the old contents not found" % fn.loc)
-        if not all(g.dominates(g.pos(cl[0]), g.pos_deep(x)) for x in w if g.pos_deep(x)):
+        for x in w:
+            px = P(g, x)
+            if px is None or any(g.dominates(P(g, c), px) for c in cl):
+                continue
+            if any(g.reachable(P(g, c), px) for c in cl):
+                raise dtable.Undecidable("%s: clear() lies on some but not on all paths to the cursor reset" % fn.nloc(x))
             ck.violation("COPY-ELEMENTS", fn.qname, "reset-before-clear", "cursors are reset before the old elements were destroyed", fn.loc)
             return
     ck.ok("COPY-ELEMENTS", fn.qname + ("(copy-ctor)" if fn.kind == "ctor" else "(copy-assign)"), "push_back(rb[i]) for i in [0, rb.size()), sources of 0..3 elements")
 
 
+RB_NO_RESET = tuple(EXPECT) + RB_OBSERVERS + ("clear", "deallocate")      # members of *this that do not re-establish cursors for a new capacity
+
+
 def check_cursor_reset(ck, fn):
     """a function that installs a new mask_ (capacity change) must also re-establish both cursors:
     cursors left over from the old capacity may lie outside the new block"""
-    w = field_writes(fn, None)
-    if ("this", "mask_") not in w or fn.kind == "ctor":
+    ops = FieldOps(fn)
+    if ("this", "mask_") not in ops.w or fn.kind == "ctor":
         return
-    src = w[("this", "mask_")][-1]
-    ff = match.field_of(src)
-    from_obj = ref_of(ff[0]) if ff and ff[1] == "mask_" else None
-    missing = []
+    val = ops.values(local_defs(fn))
+    src = val[("this", "mask_")]
+    from_obj = src[1] if src[0] == "init" and src[2] == "mask_" and src[1] != "this" else None
+    missing, unclear = [], []
     for c in ("begin_", "end_"):
-        r = w.get(("this", c))
-        okc = False
-        if r:
-            v = r[-1]
-            f2 = match.field_of(v)
-            if const_int(v) == 0:
-                okc = True
-            elif from_obj is not None and f2 and f2[1] == c and ref_of(f2[0]) == from_obj:
-                okc = True
-        if not okc:
+        v = val.get(("this", c))
+        if v is None:
+            other = [x for x in this_calls(fn, None) if x["callee"]["name"] not in RB_NO_RESET and not x["callee"].get("const")]
+            if ops.opaque("this", c) or other:
+                unclear.append(c)
+            else:
+                missing.append(c)
+        elif v == ("c", 0) or (from_obj is not None and v == ("init", from_obj, c)):
+            pass
+        elif v[0] == "?" or ops.opaque("this", c):
+            unclear.append(c)
+        else:
             missing.append(c)
     if missing:
         ck.violation("CURSOR-RESET", fn.qname, "mask-without:" + ",".join(missing),
                      "%s installs a new mask_/capacity but keeps the old %s: a cursor beyond the new capacity indexes outside the block"
                      % (fn.name, " and ".join(missing)), fn.loc)
+    elif unclear:
+        raise dtable.Undecidable("%s: %s installs a new mask_; what it does to %s is not understood" % (fn.loc, fn.name, " and ".join(unclear)))
     else:
         ck.ok("CURSOR-RESET", "%s(%s)" % (fn.qname, ",".join(p["ty"] for p in fn.params)), "new mask_ comes with begin_/end_ re-established")
 
@@ -473,46 +1132,105 @@ def check_sv_coupled(ck, fn):
     if fn.kind == "ctor":
         return
     g = cfgm.CFG(fn)
+    ops = FieldOps(fn)
     writes = {"size_": [], "array_": []}
     for x in ir.walk(fn.body):
         b = match.binop(x, ("=",))
         if b:
-            f = match.field_of(b[1])
-            if f and f[1] in writes:
-                base = strip_casts(f[0])
-                who = "this" if base["k"] == "This" else ref_of(base)
+            t = ops.target(b[1])
+            if t and t[1] in writes:
                 rhs = b[2]
-                writes[f[1]].append((x, who, rhs))
-        c = match.call_named(x, ("swap",))
+                while match.binop(rhs, ("=",)):
+                    rhs = match.binop(rhs, ("=",))[2]
+                writes[t[1]].append((x, t[0], rhs))
+        c = match.call_named(x, ("exchange",))
         if c and len(kids(c)) == 2:
-            fa, fb = match.field_of(kids(c)[0]), match.field_of(kids(c)[1])
+            t = ops.target(kids(c)[0])
+            if t and t[1] in writes:
+                writes[t[1]].append((x, t[0], kids(c)[1]))
+        c = match.call_named(x, ("swap", "iter_swap"))
+        if c and len(kids(c)) == 2:
+            fa, fb = ops.target(kids(c)[0]), ops.target(kids(c)[1])
             if fa and fb and fa[1] == fb[1] and fa[1] in writes:
                 writes[fa[1]].append((x, "swap", None))
     if not writes["size_"] and not writes["array_"]:
         return
-    def pos(x):
-        return g.pos(x) or g.pos_deep(x)
     okall = True
     for a, b in (("size_", "array_"), ("array_", "size_")):
         for (x, who, rhs) in writes[a]:
-            mates = [(y, w2, r2) for (y, w2, r2) in writes[b] if w2 == who and pos(y) and pos(x) and
-                     (pos(y) == pos(x) or g.dominates(pos(y), pos(x)) or g.postdominates(pos(y), pos(x)))]
-            if not mates:
+            px = P(g, x)
+            if px is None:
+                raise dtable.Undecidable("%s: write of %s has no place in the CFG" % (fn.nloc(x), a))
+            mates = [(y, w2, r2) for (y, w2, r2) in writes[b] if w2 == who and P(g, y)]
+            mpos = [P(g, y) for (y, _, _) in mates if P(g, y) != px]
+            same = [m for m in mates if P(g, m[0]) == px]
+            # a path through this write on which the other field is never written
+            lonely = not same and g.path_between_avoiding((g.entry, -1), px, mpos) is not None and g.path_avoiding(px, mpos) is not None
+            if lonely:
+                others = [w2 for (_, w2, _) in writes[b] if w2 != who]
+                if who == "swap":
+                    unclear = bool(others) or any(k[1] == b for k in ops.unknown)
+                else:
+                    unclear = ops.opaque(who, b) or "swap" in others
+                if unclear:
+                    raise dtable.Undecidable("%s: %s is written; whether %s changes with it is not understood" % (fn.nloc(x), a, b))
                 ck.violation("SV-COUPLED", fn.qname, "%s-without-%s" % (a, b),
                              "%s is changed on a path that does not change %s: the stored element count and the live block disagree "
                              "(elements stay constructed although no longer stored, or vice versa)" % (a, b), fn.nloc(x))
                 okall = False
                 continue
             if a == "size_" and who != "swap":
-                y, _, r2 = mates[-1]
-                ca = match.call_named(r2, ("create_array",))
+                # the value of array_ that is in force with this size_: the write that dominates / post-dominates it
+                near = [m for m in mates if P(g, m[0]) == px or g.dominates(P(g, m[0]), px) or g.postdominates(P(g, m[0]), px)]
+                if not near:
+                    continue                       # several writes of array_ on different branches: each is judged from its own side
+                y, _, r2 = near[-1]
+                r2u, rhsu = unwrap(r2), unwrap(rhs)
+                ca = match.call_named(r2u, ("create_array",))
                 if ca is not None:
-                    if not match.same_expr(kids(ca)[-1], rhs):
-                        ck.violation("SV-COUPLED", fn.qname, "size-vs-create", "size_ = %s but the block is created with %s elements"
-                                     % (dtable.describe(rhs), dtable.describe(kids(ca)[-1])), fn.nloc(x))
-                        okall = False
-                elif strip_casts(r2)["k"] == "NullPtr" or const_int(r2) == 0:
-                    if const_int(rhs) != 0:
+                    arg = unwrap(kids(ca)[-1])
+                    if match.same_expr(arg, rhsu):
+                        continue
+                    if match.this_field(arg) == "size_" and P(g, y) and g.dominates(px, P(g, y)) and \
+                            not any(z is not x and w_ == who and P(g, z) and g.reachable(px, P(g, z)) and g.reachable(P(g, z), P(g, y)) for (z, w_, _) in writes["size_"]):
+                        continue                       # the block is created with the size_ just stored
+
+                    # both linear in one by-value parameter that is never written (or constant): they differ for some call unless a
+                    # branch condition on the way relates them
+                    written = {ref_of(w_[1]) for z in ir.walk(fn.body) for w_ in [match.unop(z, ("++", "--")) or match.binop(z, ASSIGN_OPS)] if w_} - {None}
+
+                    def plain_leaf(l_):
+                        if l_ is None:
+                            return True
+                        d_ = ref_of(l_)
+                        return d_ is not None and fn.param_index(d_) is not None and d_ not in written and \
+                            (fn.params[fn.param_index(d_)].get("ty") or "").rstrip()[-1:] not in ("&", "*")
+                    la, lr = linear_in_one(arg), linear_in_one(rhsu)
+                    if la is not None and lr is not None and plain_leaf(la[0]) and plain_leaf(lr[0]):
+                        if (ref_of(la[0]) if la[0] is not None else None, la[1]) == (ref_of(lr[0]) if lr[0] is not None else None, lr[1]):
+                            continue
+                        leaves = {ref_of(l_) for l_ in (la[0], lr[0]) if l_ is not None}
+                        guarded = False
+                        for site in (x, y):
+                            par = fn.parent(site)
+                            while par is not None:
+                                if par["k"] in ("IfStmt", "WhileStmt", "ForStmt", "DoStmt", "ConditionalOperator", "SwitchStmt", "CaseStmt"):
+                                    cnd = match.loop_parts(par)[1] if par["k"] in ("WhileStmt", "ForStmt", "DoStmt") else (kids(par)[0] if kids(par) else None)
+                                    if any(ref_of(z) in leaves for z in ir.walk(cnd)):
+                                        guarded = True
+                                par = fn.parent(par)
+                        returns_before = any(z["k"] == "ReturnStmt" for z in ir.walk(fn.body))      # an early return guards what follows it
+                        if not guarded and not returns_before:
+                            ck.violation("SV-COUPLED", fn.qname, "size-vs-create", "size_ = %s but the block is created with %s elements"
+                                         % (dtable.describe(rhs), dtable.describe(kids(ca)[-1])), fn.nloc(x))
+                            okall = False
+                            continue
+                    raise dtable.Undecidable("%s: size_ = %s and create_array(%s): whether they agree is not understood"
+                                             % (fn.nloc(x), dtable.describe(rhs), dtable.describe(kids(ca)[-1])))
+                elif is_null(r2u):
+                    if const_int(rhsu) is None:
+                        raise dtable.Undecidable("%s: array_ = nullptr with size_ = %s: value not understood" % (fn.nloc(x), dtable.describe(rhs)))
+                    if const_int(rhsu) != 0:
                         ck.violation("SV-COUPLED", fn.qname, "null-vs-size", "array_ = nullptr but size_ = %s" % dtable.describe(rhs), fn.nloc(x))
                         okall = False
     if okall:
@@ -598,7 +1316,8 @@ def check_sv_modes(ck, tu):
         ck.require(len(cr) == 1 and len(de) == 1, "SimpleVector<%s>: create/destroy_array not instantiated" % mode)
         cr, de = cr[0], de[0]
         alloc = set()
-        for s in reached_in_switch(cr):
+        reached_cr = reached_in_switch(cr)
+        for s in reached_cr:
             for x in [s]:
                 if x["k"] == "CXXNewExpr":
                     alloc.add("new[]" if x.get("array") else "new")
@@ -612,25 +1331,9 @@ def check_sv_modes(ck, tu):
                     free.add("delete[]" if x.get("array") else "delete")
                 elif "callee" in x and x["callee"]["name"] == "operator delete":
                     free.add("operator delete")
-                elif x["k"] in ("ForStmt", "WhileStmt"):
-                    init, cond, inc, body = match.loop_parts(x)
-                    has = any(("callee" in y and y["callee"]["name"].startswith("~")) or y["k"] == "CXXPseudoDestructorExpr"
-                              or match.call_named(y, ("destroy_at",)) for y in ir.walk(body))
-                    b = match.binop(cond, ("<", "!="))
-                    full = bool(b and ref_of(b[2]) == de.params[1]["did"])
-                    var = ref_of(b[1]) if b else None
-                    decl0 = [y for y in de.nodes() if y["k"] == "VarDecl" and y.get("did") == var and kids(y) and const_int(kids(y)[0]) == 0]
-                    wr = [y for y in de.nodes() if (match.unop(y, ("++", "--")) and ref_of(match.unop(y, ("++", "--"))[1]) == var) or
-                          (y["k"] in ("BinaryOperator", "CompoundAssignOperator") and match.binop(y, ("=", "+=", "-=")) and ref_of(match.binop(y, ("=", "+=", "-="))[1]) == var)]
-                    inside = {y["id"] for y in ir.walk(x)}
-                    lo0 = bool(var is not None and decl0 and wr and all(y["id"] in inside and match.unop(y, ("++",)) for y in wr))
-                    pass
-                elif False:
-                    pass
         # which elements get their destructor run explicitly: destroy_array(array, n) evaluated for n = 0..3
-        from engine import skel
-        BASE = 1000
         cover = []
+        opaque = []            # calls of unknown kind that receive the block (they may run destructors)
         for n_ in range(4):
             hit = []
 
@@ -659,6 +1362,14 @@ def check_sv_modes(ck, tu):
                     else:
                         hit.append(None)
                     return None
+                if "callee" in e and e["callee"]["name"] not in ("operator delete", "operator delete[]", "free", "abort") + TRANSPARENT \
+                        and e["k"] in ("CallExpr", "CXXMemberCallExpr", "CXXOperatorCallExpr"):
+                    if any(ref_of(unwrap(y)) == de.params[0]["did"] for a_ in kids(e) for y in ir.walk(a_)):
+                        opaque.append(e)
+                if e["k"] == "LambdaExpr":
+                    opaque.append(e)
+                if e["k"] in ("NullPtr", "CXXNullPtrLiteralExpr", "GNUNullExpr"):
+                    return 0
                 return NotImplemented
             sk = skel.Skel(de, {de.params[0]["did"]: BASE, de.params[1]["did"]: n_}, None, event, max_iter=16)
             try:
@@ -674,23 +1385,79 @@ def check_sv_modes(ck, tu):
             dtor_loop = True
         else:
             n_, h = [c for c in cover if sorted(c[1]) != list(range(BASE, BASE + c[0]))][0]
+            if opaque:
+                raise dtable.Undecidable("%s: destructors are run for elements %s of %d and the block is handed to %s: not understood"
+                                         % (de.nloc(opaque[0]), [x - BASE for x in h], n_, dtable.describe(opaque[0])[:80]))
             ck.violation("SV-MODE-TABLE", de.qname, mode + ":loop-range", "destructor loop does not cover [0, size): for size %d it destroys elements %s"
                          % (n_, [x - BASE for x in h]), de.loc)
             continue
         pair = {"new[]": "delete[]", "operator new": "operator delete", "new": "delete"}
         sig = mode
+        builds = [y for y in reached_cr if (y["k"] == "CXXNewExpr" and not y.get("array"))
+                  or match.call_named(y, ("construct_at", "construct", "uninitialized_default_construct", "uninitialized_default_construct_n",
+                                          "uninitialized_value_construct", "uninitialized_value_construct_n", "uninitialized_fill", "uninitialized_fill_n"))
+                  or y["k"] in ("ForStmt", "WhileStmt", "DoStmt", "CXXForRangeStmt")]
+        if mode == "Normal" and "operator new" in alloc and builds:
+            raise dtable.Undecidable("%s: default mode builds its elements by hand (%s): construction/destruction of every element is not evaluated"
+                                     % (cr.nloc(builds[0]), builds[0]["k"]))
+        if not alloc or not free:
+            # nothing recognised is not "allocates with nothing": the block is obtained / released in a way this rule does not know
+            raise dtable.Undecidable("%s: SimpleVector<%s>: how the block is %s is not understood (no new[] / operator new / delete[] / operator delete reached)"
+                                     % ((cr if not alloc else de).loc, mode, "allocated" if not alloc else "released"))
+        if len(alloc) > 1 or len(free) > 1:
+            # several kinds are reached together only if a branch could not be decided at compile time: which one runs in this mode?
+            for f_, kinds_ in ((cr, alloc), (de, free)):
+                open_branch = [y for y in f_.nodes() if y["k"] in ("IfStmt", "ConditionalOperator") and kids(y) and const_int(kids(y)[0]) is None]
+                if len(kinds_) > 1 and open_branch:
+                    raise dtable.Undecidable("%s: SimpleVector<%s>: %s are all reached behind a branch that is not a compile-time constant: %s"
+                                             % (f_.nloc(open_branch[0]), mode, sorted(kinds_), dtable.describe(kids(open_branch[0])[0])[:60]))
         if len(alloc) != 1 or len(free) != 1 or pair.get(next(iter(alloc))) != next(iter(free)):
             ck.violation("SV-MODE-TABLE", de.qname, sig + ":pair", "mode %s allocates with %s but releases with %s" % (mode, sorted(alloc), sorted(free)), de.loc)
             continue
         want_loop = mode == "NoInitButDestroy"
+        if want_loop and not dtor_loop and opaque:
+            raise dtable.Undecidable("%s: the block is handed to %s: whether that runs the element destructors is not understood"
+                                     % (de.nloc(opaque[0]), dtable.describe(opaque[0])[:80]))
         if dtor_loop != want_loop:
             ck.violation("SV-MODE-TABLE", de.qname, sig + ":dtor-loop",
                          "mode %s %s run the element destructors explicitly" % (mode, "must" if want_loop else "must not"), de.loc)
             continue
         if mode == "Normal" and alloc != {"new[]"}:
+            helpers = [y for y in reached_cr if "callee" in y and y["k"] in ("CallExpr", "CXXMemberCallExpr") and y["callee"]["name"] not in ("operator new", "abort")]
+            if helpers:
+                raise dtable.Undecidable("%s: default mode allocates raw memory and calls %s: whether that constructs the elements is not understood"
+                                         % (cr.nloc(helpers[0]), helpers[0]["callee"]["name"]))
             ck.violation("SV-MODE-TABLE", cr.qname, sig + ":default-mode", "default mode must construct/destroy every element (new[]/delete[])", cr.loc)
             continue
         ck.ok("SV-MODE-TABLE", "SimpleVector<%s>" % mode, "%s <-> %s, destructor loop: %s" % (next(iter(alloc)), next(iter(free)), dtor_loop))
+
+
+def null_test(cond, is_ptr):
+    """the truth value of `cond` under which the pointer recognised by is_ptr is null, or None:
+    p -> False, !p -> True, p == nullptr -> True, p != nullptr -> False (either operand order)"""
+    pt = match.ptr_truth(cond)
+    if pt is not None and is_ptr(pt):
+        return False
+    c = strip_casts(cond) if cond is not None and cond["k"] != "ImplicitCastExpr" else cond
+    if c is not None and c["k"] == "UnaryOperator" and c.get("op") == "!" and kids(c):
+        inner = null_test(kids(c)[0], is_ptr)
+        return None if inner is None else not inner
+    b = match.binop(cond, ("==", "!="))
+    if b:
+        for p_, n_ in ((b[1], b[2]), (b[2], b[1])):
+            if is_ptr(p_) and is_null(n_):
+                return b[0] == "=="
+    return None
+
+
+def releases_array(fn2):
+    """a member of SimpleVector that hands array_ to destroy_array on every path"""
+    if fn2 is None or fn2.body is None or not fn2.cfg:
+        return False
+    g2 = cfgm.CFG(fn2)
+    ds = [P(g2, c) for c in ir.walk(fn2.body) if match.call_named(c, ("destroy_array",)) and kids(c) and match.this_field(unwrap(kids(c)[0])) == "array_"]
+    ds = [p for p in ds if p is not None]
+    return bool(ds) and g2.path_between_avoiding((g2.entry, -1), (g2.exit, 0), ds) is None
 
 
 def check_sv_owner(ck, fn):
@@ -705,33 +1472,46 @@ def check_sv_owner(ck, fn):
     if fn.kind == "ctor":
         ck.ok("SV-OWNER", fn.full + "/%d" % len(fn.params), "constructor: nothing owned before", nontrivial=False)
         return True
+
+    def is_array(e):
+        return match.this_field(unwrap(e)) == "array_"
+    # must-fact "array_ is null": established by the null edge of a test of array_ or by array_ = nullptr, ended by any other write
+    def effect(n):
+        b_ = match.binop(n, ("=",)) if n["k"] in ("BinaryOperator", "CXXOperatorCallExpr") else None
+        if b_ and match.this_field(b_[1]) == "array_":
+            return "gen" if is_null(b_[2]) else "kill"
+        return None
+    known_null = MustFact(fn, g, lambda c, truth: null_test(c, is_array) is not None and null_test(c, is_array) == truth, effect)
     for wnode in writes:
         pw = g.pos(wnode)
         if pw is None:
             pw = g.pos_deep(wnode)
-        # (a) destroy_array(array_, ...) dominates the write
+        # (a) destroy_array(array_, ...) dominates the write - directly or in a member of *this that releases the block on every path
         ok_a = False
         saved = None
         for x in ir.walk(fn.body):
             c = match.call_named(x, ("destroy_array",))
-            if c and match.this_field(kids(c)[0]) == "array_" and g.pos(c) and g.dominates(g.pos(c), pw):
+            if c and is_array(kids(c)[0]) and P(g, c) and g.dominates(P(g, c), pw):
                 ok_a = True
-            if x["k"] == "VarDecl" and kids(x) and match.this_field(kids(x)[0]) == "array_":
+            if x["k"] == "VarDecl" and kids(x) and is_array(kids(x)[0]) and not (x.get("ty") or "").rstrip().endswith("&"):
                 saved = x
+        for c in this_calls(fn, None):
+            if P(g, c) and g.dominates(P(g, c), pw) and releases_array(fn.tu.by_did.get(c["callee"].get("did"))):
+                ok_a = True
         # (b) saved to a local that is destroyed on every path after the write
         ok_b = False
         if saved is not None:
-            ds = [c for c in ir.walk(fn.body) if match.call_named(c, ("destroy_array",)) and ref_of(kids(c)[0]) == saved["did"]]
+            ds = [c for c in ir.walk(fn.body) if match.call_named(c, ("destroy_array",)) and ref_of(unwrap(kids(c)[0])) == saved["did"]]
             # a path on which the saved pointer was tested null has nothing to destroy
             null_edges = []
             for y in ir.walk(fn.body):
                 if y["k"] == "IfStmt":
-                    pt = match.ptr_truth(kids(y)[0])
-                    if pt is not None and ref_of(pt) == saved["did"]:
-                        fe = g.false_edge_of(y["id"])
-                        if fe:
-                            null_edges.append(fe)
-            if ds and all(g.pos(d) for d in ds) and g.path_avoiding(pw, [g.pos(d) for d in ds], blocked_edges=null_edges) is None:
+                    t_ = null_test(kids(y)[0], lambda e: ref_of(unwrap(e)) == saved["did"])
+                    if t_ is not None:
+                        for bid, blk in g.blocks.items():
+                            if blk.get("term") == y["id"] and len(blk.get("succ", [])) == 2 and blk["succ"][0 if t_ else 1] is not None:
+                                null_edges.append((bid, blk["succ"][0 if t_ else 1]))
+            if ds and all(P(g, d) for d in ds) and g.path_avoiding(pw, [P(g, d) for d in ds], blocked_edges=null_edges) is None:
                 ok_b = True
         # (d) saved to a local that is handed to another object's array_ on every path after the write (exchange)
         ok_d = False
@@ -740,81 +1520,196 @@ def check_sv_owner(ck, fn):
             for y in ir.walk(fn.body):
                 b_ = match.binop(y, ("=",))
                 f_ = match.field_of(b_[1]) if b_ else None
-                if b_ and f_ and f_[1] == "array_" and strip_casts(f_[0])["k"] != "This" and ref_of(b_[2]) == saved["did"]:
+                if b_ and f_ and f_[1] == "array_" and strip_casts(f_[0])["k"] != "This" and ref_of(unwrap(b_[2])) == saved["did"]:
                     hand.append(y)
             ph = [g.pos_deep(h) for h in hand if g.pos_deep(h)]
             if ph and g.path_avoiding(pw, ph) is None:
                 ok_d = True
-        # (c) array_ known null on this path: write is in the false branch of if (array_)
-        ok_c = False
-        par = fn.parent(wnode)
-        node = wnode
-        while par is not None:
-            if par["k"] == "IfStmt":
-                cond = kids(par)[0]
-                pt = match.ptr_truth(cond)
-                if pt is not None and match.this_field(pt) == "array_" and kids(par)[2] is not None and \
-                        any(y is node for y in ir.walk(kids(par)[2])):
-                    ok_c = True
-            node, par = par, fn.parent(par)
-        if not (ok_a or ok_b or ok_c or ok_d):
-            ck.violation("SV-OWNER", fn.qname, "overwrite", "array_ is overwritten while it may still own a block (old block neither destroyed nor saved)", fn.nloc(wnode))
-            return False
+        # (c) array_ known null at the write: every path to it takes the null edge of a test of array_ (else branch, negated
+        #     condition, early return) with no other write in between
+        ok_c = known_null.before(wnode) is True
+        if ok_a or ok_b or ok_c or ok_d:
+            continue
+        # nothing recognised.  That is a lost block only in a closed world: nothing before the write reads array_ or may change it
+        if saved is not None:
+            uses = [y for y in ir.walk(fn.body) if y["k"] == "DeclRefExpr" and y["ref"]["id"] == saved["did"]]
+            for y in uses:
+                par = fn.parent(y)
+                while par is not None and par["k"] in ("ImplicitCastExpr", "ParenExpr", "BinaryOperator", "ArraySubscriptExpr", "UnaryOperator") \
+                        and par.get("op") in (None, "+", "-", "*", "!", "==", "!="):
+                    par = fn.parent(par)
+                if par is not None and "callee" in par and par["callee"]["name"] in ("destroy_array", "move", "copy", "move_n", "copy_n", "uninitialized_move",
+                                                                                     "uninitialized_copy", "min", "max"):
+                    continue
+                if par is not None and par["k"] in ("IfStmt", "CompoundStmt"):
+                    continue
+                raise dtable.Undecidable("%s: array_ is overwritten; the old block is kept in '%s', whose use in %s is not understood"
+                                         % (fn.nloc(wnode), saved.get("name"), dtable.describe(par)[:60] if par is not None else "?"))
+        else:
+            # reads of array_ of a recognised kind: null tests and destroy_array(array_, ...); members of *this that release the block
+            tested = set()
+            for y in ir.walk(fn.body):
+                if y["k"] in ("IfStmt", "WhileStmt", "ForStmt", "DoStmt", "ConditionalOperator"):
+                    cnd = match.loop_parts(y)[1] if y["k"] in ("WhileStmt", "ForStmt", "DoStmt") else kids(y)[0]
+                    if cnd is not None and null_test(cnd, is_array) is not None:
+                        tested |= {z["id"] for z in ir.walk(cnd)}
+            destroys = [c for c in ir.walk(fn.body) if match.call_named(c, ("destroy_array",)) and kids(c) and is_array(kids(c)[0]) and P(g, c)]
+            for c in destroys:
+                tested |= {z["id"] for z in ir.walk(kids(c)[0])}
+            releasing = [c for c in this_calls(fn, None) if P(g, c) and releases_array(fn.tu.by_did.get(c["callee"].get("did")))]
+            lhs = strip_casts(match.binop(wnode, ("=",))[1])
+            before = [y for y in ir.walk(fn.body) if y["k"] == "MemberExpr" and is_array(y) and y is not lhs and y["id"] not in tested
+                      and P(g, y) and (g.reachable(P(g, y), pw) or P(g, y) == pw)
+                      and not any(y is strip_casts(match.binop(w2, ("=",))[1]) for w2 in writes)]
+            before += [c for c in this_calls(fn, None) if not c["callee"].get("const") and c not in releasing and P(g, c) and g.reachable(P(g, c), pw)]
+            before += [y for y in ir.walk(fn.body) if match.call_named(y, ("swap", "exchange")) and any(is_array(a_) for a_ in kids(y))]
+            if before:
+                raise dtable.Undecidable("%s: array_ is overwritten; what %s before it does to the old block is not understood"
+                                         % (fn.nloc(wnode), dtable.describe(before[0])[:60]))
+            # closed world: a path to the write that passes no release and no edge on which array_ was found null is the counterexample
+            null_edges = []
+            for bid, blk in g.blocks.items():
+                cnd = fn.byid(blk["cond"]) if blk.get("cond") is not None else None
+                t_ = null_test(cnd, is_array) if cnd is not None else None
+                if t_ is not None and len(blk.get("succ", [])) == 2 and blk["succ"][0 if t_ else 1] is not None:
+                    null_edges.append((bid, blk["succ"][0 if t_ else 1]))
+            stops = [P(g, c) for c in destroys + releasing] + [P(g, w2) for w2 in writes if w2 is not wnode and is_null(match.binop(w2, ("=",))[2]) and P(g, w2)]
+            if g.path_between_avoiding((g.entry, -1), pw, stops, blocked_edges=null_edges) is None:
+                raise dtable.Undecidable("%s: array_ is overwritten; every path releases the block or finds it null, but not in a way this rule understands"
+                                         % fn.nloc(wnode))
+        ck.violation("SV-OWNER", fn.qname, "overwrite", "array_ is overwritten while it may still own a block (old block neither destroyed nor saved)", fn.nloc(wnode))
+        return False
     ck.ok("SV-OWNER", where, "%d writes to array_, old block destroyed/saved/known null at each" % len(writes))
     return True
 
 
 def check_sv_resize(ck, fn):
     g = cfgm.CFG(fn)
+    defs = local_defs(fn)
     newp = fn.params[0]["did"]
     ok_all = True
     for x in ir.walk(fn.body):
         c = match.call_named(x, ("destroy_array",))
-        if c and ref_of(kids(c)[0]) is not None:     # destroying the saved old block
+        if c and ref_of(unwrap(kids(c)[0])) is not None:     # destroying the saved old block
             szarg = kids(c)[1]
-            if match.this_field(szarg) != "size_":
+            pc = P(g, c)
+            cap = captured_field(fn, g, szarg, defs, pc)
+            if cap is None or pc is None:
+                s0 = unwrap(szarg)
+                if const_int(s0) is not None or (ref_of(s0) is not None and fn.param_index(ref_of(s0)) is not None):
+                    cap = ("?", pc)                          # a constant / a parameter: certainly not the old size_
+                else:
+                    raise dtable.Undecidable("%s: size the old block is destroyed with not understood: %s" % (fn.nloc(c), dtable.describe(szarg)))
+            if cap[0] != "size_":
                 ck.violation("SV-RESIZE-ORDER", fn.qname, "old-size", "old block is destroyed with %s instead of the old size_" % dtable.describe(szarg), fn.nloc(c))
                 ok_all = False
                 continue
-            # no write to size_ may reach the destroy
+            # no write to size_ may reach the point where the size is read
             for y in ir.walk(fn.body):
                 b = match.binop(y, ("=",))
-                if b and match.this_field(b[1]) == "size_" and g.pos(y) and g.pos(c) and g.reachable(g.pos(y), g.pos(c)):
+                if b and match.this_field(b[1]) == "size_" and P(g, y) and g.reachable(P(g, y), cap[1]):
                     ck.violation("SV-RESIZE-ORDER", fn.qname, "size-before-destroy", "size_ is updated before the old block is destroyed with it", fn.nloc(y))
                     ok_all = False
-    # moved count = min(size_, new_size)
+    # moved count = min(size_, new_size): the range handed to the move is evaluated for old sizes / new sizes 0..3
     for x in ir.walk(fn.body):
-        c = match.call_named(x, ("move", "copy", "move_n", "copy_n", "uninitialized_move"))
-        if c and len(kids(c)) == 3:
-            last = kids(c)[1]
-            b = match.binop(last, ("+",))
-            if b:
-                m = match.call_named(b[2], ("min",))
-                if not (m and {match.this_field(kids(m)[0]) or ref_of(kids(m)[0]), match.this_field(kids(m)[1]) or ref_of(kids(m)[1])} == {"size_", newp}):
-                    ck.violation("SV-RESIZE-ORDER", fn.qname, "move-count", "resize moves %s elements, must move min(size_, new_size)" % dtable.describe(b[2]), fn.nloc(c))
-                    ok_all = False
+        c = match.call_named(x, ("move", "copy", "move_n", "copy_n", "uninitialized_move", "uninitialized_copy", "uninitialized_move_n", "uninitialized_copy_n"))
+        if c and len(kids(c)) == 3 and x is strip_casts(x):
+            cex = moved_count_cex(fn, c, newp)
+            if cex:
+                ck.violation("SV-RESIZE-ORDER", fn.qname, "move-count", "resize moves %s elements, must move min(size_, new_size): for size_=%d new_size=%d it moves %d"
+                             % (dtable.describe(kids(c)[1]), cex[0], cex[1], cex[2]), fn.nloc(c))
+                ok_all = False
     if ok_all:
         ck.ok("SV-RESIZE-ORDER", fn.full, "old block destroyed with the old size_; min(size_, new_size) elements carried over")
 
 
+def moved_count_cex(fn, c, newp):
+    """the number of elements handed to the move/copy call c, evaluated on the skeleton of resize for every old size and new
+    size in 0..3 (with a block present): -> (size_, new_size, count) where it is not min(size_, new_size), else None"""
+    by_count = c["callee"]["name"].endswith("_n")
+    reached = False
+    for s_ in range(4):
+        for n_ in range(4):
+            fresh = [5000]
+
+            def event(e, sk):
+                if match.call_named(e, ("create_array",)) and e is strip_casts(e):
+                    fresh[0] += 1000
+                    return fresh[0]
+                if e["k"] in ("NullPtr", "CXXNullPtrLiteralExpr", "GNUNullExpr"):
+                    return 0
+                return NotImplemented
+            sk = skel.Skel(fn, {("field", "array_"): BASE, ("field", "size_"): s_, newp: n_}, None, event, stop=c, max_iter=16)
+            try:
+                sk.run(kids(fn.body))
+                continue                                     # the call is not reached for these sizes
+            except skel.Return:
+                continue
+            except skel.Stop:
+                pass
+            reached = True
+            first, second = sk.ev(kids(c)[0]), sk.ev(kids(c)[1])
+            if by_count:
+                count = second
+            else:
+                count = (second - first) if isinstance(first, int) and isinstance(second, int) else None
+            if isinstance(count, bool) or not isinstance(count, int):
+                raise dtable.Undecidable("%s: number of elements moved cannot be evaluated: %s" % (fn.nloc(c), dtable.describe(kids(c)[1])))
+            if count != min(s_, n_):
+                return (s_, n_, count)
+    if not reached:
+        raise dtable.Undecidable("%s: the move of the old elements is not reached in the evaluation" % fn.nloc(c))
+    return None
+
+
 def check_sv_move(ck, fn):
     v = fn.params[0]["did"]
-    w = field_writes(fn, None)
-    a = w.get((v, "array_"))
-    s = w.get((v, "size_"))
-    if not (a and (strip_casts(a[-1])["k"] == "NullPtr" or const_int(a[-1]) == 0)):
-        ck.violation("SV-OWNER", fn.qname, "src-array", "moved-from vector keeps its array_ (double ownership)", fn.loc)
-        return
-    if not (s and const_int(s[-1]) == 0):
-        ck.violation("SV-OWNER", fn.qname, "src-size", "moved-from vector keeps a non-zero size_", fn.loc)
-        return
+    ops = FieldOps(fn)
+    val = ops.values(local_defs(fn))
+    a = val.get((v, "array_"))
+    s = val.get((v, "size_"))
+    if a not in (("null",), ("c", 0)):
+        if (a is None and not ops.opaque(v, "array_")) or (a is not None and a[0] != "?" and not ops.opaque(v, "array_")):
+            ck.violation("SV-OWNER", fn.qname, "src-array", "moved-from vector keeps its array_ (double ownership)", fn.loc)
+            return
+        raise dtable.Undecidable("%s: what the move leaves in the source's array_ is not understood" % fn.loc)
+    if s != ("c", 0):
+        if (s is None and not ops.opaque(v, "size_")) or (s is not None and s[0] != "?" and not ops.opaque(v, "size_")):
+            ck.violation("SV-OWNER", fn.qname, "src-size", "moved-from vector keeps a non-zero size_", fn.loc)
+            return
+        raise dtable.Undecidable("%s: what the move leaves in the source's size_ is not understood" % fn.loc)
     for f in ("array_", "size_"):
-        r = w.get(("this", f))
-        ff = match.field_of(r[-1]) if r else None
-        if not (ff and ff[1] == f and ref_of(ff[0]) == v):
+        r = val.get(("this", f))
+        if r == ("init", v, f):
+            continue
+        if (r is None or r[0] != "?") and not ops.opaque("this", f) and not ops.opaque(v, f):
             ck.violation("SV-OWNER", fn.qname, "takes:" + f, "move does not take %s from the source" % f, fn.loc)
             return
+        raise dtable.Undecidable("%s: value given to %s in the move not understood" % (fn.loc, f))
     ck.ok("SV-OWNER", fn.full + (" move-ctor" if fn.kind == "ctor" else " move-assign"), "takes (size_, array_), source nulled")
+
+
+def linear_in_one(e):
+    """e == leaf + k for one non-constant leaf: -> (leaf expression, k); a constant -> (None, k); else None"""
+    e = unwrap(e)
+    if e is None:
+        return None
+    k = const_int(e)
+    if k is not None:
+        return None, k
+    b = match.binop(e, ("+", "-")) if e["k"] == "BinaryOperator" else None
+    if b:
+        l, r = linear_in_one(b[1]), linear_in_one(b[2])
+        if l is None or r is None:
+            return None
+        if l[0] is not None and r[0] is not None:
+            return None
+        if b[0] == "-" and r[0] is not None:
+            return None
+        return (l[0] if l[0] is not None else r[0]), l[1] + (r[1] if b[0] == "+" else -r[1])
+    if e["k"] in ("DeclRefExpr", "MemberExpr"):
+        return e, 0
+    return None
 
 
 def check_capacity(ck, fn):
@@ -829,6 +1724,7 @@ def check_capacity(ck, fn):
         b = match.binop(x, ("=",)) if x["k"] == "BinaryOperator" else None
         if b and match.this_field(b[1]) == "capacity_":
             sites.append(b[2])
+    ops = None
     n = 0
     for e in sites:
         calls = [z for z in ir.walk(e) if "callee" in z and z["callee"]["name"] == "round_up_to_power_of_two"]
@@ -836,14 +1732,19 @@ def check_capacity(ck, fn):
             continue          # copied from another ring / zero
         n += 1
         arg = strip_casts(kids(calls[0])[0])
-        b = match.binop(arg, ("+",))
-        base = b[1] if b else arg
-        extra = const_int(b[2]) if b else 0
-        is_max = ir.ref_name(base) == "max_size" or match.this_field(base) == "max_size_"
+        lin = linear_in_one(arg)
         tag = "%s::%s" % (fn.record.split("::")[-1], fn.name)
+        if lin is None or lin[0] is None:
+            raise dtable.Undecidable("%s: capacity is not computed from the maximum size: %s" % (fn.nloc(calls[0]), dtable.describe(arg)))
+        base, extra = lin
+        # the maximum size: the member max_size_, or the parameter this function stores into max_size_ (whatever it is called)
+        is_max = match.this_field(base) == "max_size_"
+        if not is_max and ref_of(base) is not None and fn.param_index(ref_of(base)) is not None:
+            ops = ops or FieldOps(fn)
+            is_max = any(ref_of(unwrap(v)) == ref_of(base) for v in ops.w.get(("this", "max_size_"), []))
         if not is_max:
             raise dtable.Undecidable("%s: capacity is not computed from the maximum size: %s" % (fn.nloc(calls[0]), dtable.describe(arg)))
-        if extra is None or extra < 1:
+        if extra < 1:
             ck.violation("CAPACITY-SPARE-SLOT", fn.qname, "%s:%s" % (fn.name, dtable.describe(arg)),
                          "the capacity is round_up_to_power_of_two(%s): for a max_size that is a power of two the ring has exactly max_size slots, a full ring "
                          "has end_ == begin_ and reports size() == 0 (elements are then leaked and overwritten)" % dtable.describe(arg), fn.nloc(calls[0]))
@@ -860,7 +1761,10 @@ def run(ck):
         "the same convention (all wrapped by the mask). Storage release must be dominated by clear(); moves must take all fields "
         "and leave the source empty and non-owning; copies must push_back every source element. SimpleVector: the instantiated "
         "switch(Mode) tables of create_array/destroy_array must pair, array_ must never be overwritten while owning, resize must "
-        "destroy the old block with the old size. Histories (deque equivalence) are not decided.")
+        "destroy the old block with the old size. Histories (deque equivalence) are not decided. A member that is not written in "
+        "the usual statement shapes is evaluated instead (every cursor position of buffers with mask 1..15, old/new sizes 0..3, "
+        "sources of 0..3 elements); a violation is reported only with such a counterexample, a CFG path, or a complete effect list "
+        "- a shape that is not understood is 'cannot decide'.")
     types = ["std::string"] if ck.tier == "quick" else ["std::string", "std::vector<int>"]
     for t in types:
         for nd in ([True] if ck.tier == "quick" else [True, False]):
